@@ -1,5 +1,6 @@
 import MD.Model.Decompose
 import MD.Proofs.IsoFitLemmas
+import MD.Proofs.Consistency
 import Mathlib.Tactic.Linarith
 import Mathlib.Tactic.Ring
 import Mathlib.Tactic.FieldSimp
@@ -7,13 +8,30 @@ import Mathlib.Tactic.Positivity
 
 /-! # Lemmas about `decompose` (C06, C07)
 
-Part A (over the bare operation classes of the model, so also valid at `Float`): a normal form of
-`decompose` as four stages
+* **A** (over the bare operation classes of the model, so also valid at `Float`): a normal form of
+  `decompose` as four stages (`dec_eq`)
 
-  `dec_validate` (functional / level)  →  `dec_shape` (length checks)  →
-  `dec_marginal` (marginal functional and its score)  →  `List.mapM dec_row` (one row per column),
+    `dec_validate` (functional / level)  →  `dec_shape` (length checks)  →
+    `dec_marginal` (marginal functional and its score)  →  `List.mapM dec_row` (one row per column),
 
-and inversion lemmas for a successful call.  Part B (ordered fields): the analytic facts. -/
+  `mapM` lemmas (`dec_mapM_ok`), inversion of each stage (`dec_ok_iff`, `dec_row_ok`,
+  `dec_recal_ok`), the errors of the first two stages, aliases, column independence.
+* **B** (ordered fields): `dec_FitOpt f lv S dom ys` — "the isotonic fit for `(f, lv)` minimises the
+  per-pair score `S`" — with instances for every `OSScore` (`dec_fitOpt_of_gpava`), the squared
+  error, the asymmetric squared error and the pinball loss; `dec_recal_le`: the recalibrated
+  forecasts are optimal among monotone functions of the forecast; `dec_sfMean_ok`: average scores as
+  weighted totals; `dec_row_signs` (`mcb, dsc ≥ 0`), `dec_row_mcb_zero`, `dec_row_dsc_zero`
+  (constant forecasts are recalibrated to the marginal: `dec_recal_const_marginal`),
+  `dec_unc_best_const`.
+* **C** row order: `dec_decompose_perm'` (domain repair included: `dec_repair_eq`,
+  `dec_recal_perm`; the domain of a score object is a rectangle: `dec_sfOK_rect`, `dec_flags_eq`).
+* **D** strictly increasing relabelling: `dec_recal_relabel`, `dec_decompose_relabel`.
+* **E** the library scores at `ℝ`: homogeneous expectile family (`dec_hes_signs`), homogeneous
+  quantile family (`dec_quantileFit_optimal`, `dec_hqs_all`), pinball loss; `ElementaryScore` over
+  any ordered field (`dec_elem_fitOpt`).
+* **F** case weights: `dec_WEquiv` (same weighted information), `dec_fit_wequiv`,
+  `dec_decompose_wequiv_full`, `dec_WEquiv_rep` (integer weights = repeated rows).
+* **G** `dec_decompose_sq_ok`: `decompose` succeeds for the squared error (non-vacuity). -/
 
 set_option linter.unusedSectionVars false
 
@@ -1873,5 +1891,2819 @@ theorem dec_row_dsc_zero (sf : SF K) (f : Functional) (lv : K) (hm : f ≠ .medi
   rw [Except.ok.inj hsr, sub_self]
 
 end Marg
+
+
+/-! ## C. Row order -/
+
+section PermMin
+variable {K : Type} [Field K] [LinearOrder K] [IsStrictOrderedRing K] [Inhabited K]
+
+/-- `l.foldl min l[0]` is the least element of a non-empty list -/
+theorem dec_lmin_spec (l : List K) (hne : l ≠ []) :
+    l.foldl min l[0]! ∈ l ∧ ∀ x ∈ l, l.foldl min l[0]! ≤ x := by
+  cases l with
+  | nil => exact absurd rfl hne
+  | cons a t =>
+    have e : (a :: t).foldl min (a :: t)[0]! = t.foldl min a := by
+      simp [List.foldl_cons]
+    rw [e]
+    constructor
+    · rcases foldl_min_mem a t with h | h
+      · rw [h]; simp
+      · simp [h]
+    · intro x hx
+      rcases List.mem_cons.mp hx with rfl | hx
+      · exact (foldl_min_le _ t).1
+      · exact (foldl_min_le a t).2 x hx
+
+/-- … so it does not depend on the order -/
+theorem dec_lmin_perm {l l' : List K} (hp : l.Perm l') (hne : l ≠ []) :
+    l.foldl min l[0]! = l'.foldl min l'[0]! := by
+  have hne' : l' ≠ [] := by
+    intro he; rw [he] at hp; exact hne hp.eq_nil
+  obtain ⟨h1, h2⟩ := dec_lmin_spec l hne
+  obtain ⟨h1', h2'⟩ := dec_lmin_spec l' hne'
+  exact le_antisymm (h2 _ (hp.mem_iff.mpr h1')) (h2' _ (hp.mem_iff.mp h1))
+
+end PermMin
+
+section PermMean
+variable {K : Type} [Field K] [LinearOrder K] [IsStrictOrderedRing K] [ScoreOps K] [Inhabited K]
+
+/-- the per-pair value of the score as a total function (`0` outside the domain) -/
+def dec_pairVal (sf : SF K) (y z : K) : K :=
+  match sfPair sf y z with
+  | .ok v => v
+  | .error _ => 0
+
+omit [ScoreOps K] [Inhabited K] in
+/-- the value of a successful `np.average`, with the effective weights (no sign condition) -/
+theorem dec_average_val {a ys : List K} {w : Option (List K)} {v : K} (hl : a.length = ys.length)
+    (h : average a w = .ok v) :
+    (∀ w', w = some w' → w'.length = ys.length) ∧
+      v = (List.zipWith (· * ·) a (dec_wts ys w)).sum / (dec_wts ys w).sum := by
+  cases w with
+  | none =>
+    unfold average at h
+    simp only at h
+    split_ifs at h
+    have := Except.ok.inj h
+    refine ⟨fun w' hw => (by cases hw), ?_⟩
+    simp only [dec_wts]
+    rw [List.map_const', dec_sum_ones, dec_zipWith_ones a _ hl, ← hl]
+    exact this.symm
+  | some w' =>
+    unfold average at h
+    simp only at h
+    split_ifs at h with h1 h2
+    have := Except.ok.inj h
+    refine ⟨fun w'' hw => (by cases hw; rw [← hl]; exact not_not.mp h1), ?_⟩
+    exact this.symm
+
+/-- the value of a successful `scoring_function(y, z, w)` -/
+theorem dec_sfMean_val {sf : SF K} {ys zs : List K} {w : Option (List K)} {s : K}
+    (h : sfMean sf ys zs w = .ok s) :
+    zs.length = ys.length ∧ (∀ w', w = some w' → w'.length = ys.length) ∧
+    (∀ p ∈ ys.zip zs, ∃ v, sfPair sf p.1 p.2 = .ok v) ∧
+      s = total (dec_wS (dec_pairVal sf)) (ys.zip (dec_wts ys w)) zs / (dec_wts ys w).sum := by
+  unfold sfMean at h
+  by_cases hlen : ys.length ≠ zs.length
+  · rw [if_pos hlen] at h; cases h
+  rw [if_neg hlen] at h
+  rw [not_not] at hlen
+  have h' : ((List.zip ys zs).mapM (fun p => sfPair sf p.1 p.2) >>= fun s => average s w)
+      = .ok s := h
+  clear h
+  cases hper : (List.zip ys zs).mapM (fun p => sfPair sf p.1 p.2) with
+  | error e => rw [hper] at h'; cases h'
+  | ok per =>
+  rw [hper, dec_ok_bind] at h'
+  have hav : average per w = .ok s := h'
+  have hall := (dec_mapM_ok _ _ _).mp hper
+  have hpl : per.length = ys.length := by
+    rw [dec_mapM_length hper, List.length_zip, ← hlen, min_self]
+  have hpairs : ∀ p ∈ ys.zip zs, ∃ v, sfPair sf p.1 p.2 = .ok v := by
+    intro p hp
+    obtain ⟨i, hi, rfl⟩ := List.getElem_of_mem hp
+    exact ⟨per[i]'(by rw [dec_mapM_length hper]; exact hi), dec_mapM_get hper i hi _⟩
+  have hper' : per = (ys.zip zs).map (fun p => dec_pairVal sf p.1 p.2) := by
+    apply List.ext_getElem
+    · rw [List.length_map, dec_mapM_length hper]
+    · intro i h1 h2
+      have := dec_mapM_get hper i (by rw [← dec_mapM_length hper]; exact h1) h1
+      rw [List.getElem_map]
+      unfold dec_pairVal
+      rw [this]
+  obtain ⟨hw, hv⟩ := dec_average_val hpl hav
+  refine ⟨hlen.symm, hw, hpairs, ?_⟩
+  rw [hv, hper', dec_total_eq_zip]
+
+/-- **the average score of a function of the forecast does not depend on the row order** (both
+calls succeeding) -/
+theorem dec_sfMean_perm (sf : SF K) (g : K → K) {X₁ y₁ X₂ y₂ : List K} {w₁ w₂ : Option (List K)}
+    (hX₁ : X₁.length = y₁.length) (hX₂ : X₂.length = y₂.length)
+    (hperm : (fit_rows X₁ y₁ w₁).Perm (fit_rows X₂ y₂ w₂)) {s₁ s₂ : K}
+    (h₁ : sfMean sf y₁ (X₁.map g) w₁ = .ok s₁) (h₂ : sfMean sf y₂ (X₂.map g) w₂ = .ok s₂) :
+    s₁ = s₂ := by
+  obtain ⟨_, hw₁, _, e₁⟩ := dec_sfMean_val h₁
+  obtain ⟨_, hw₂, _, e₂⟩ := dec_sfMean_val h₂
+  rw [e₁, e₂, dec_total_rows _ g X₁ y₁ w₁ hX₁ hw₁, dec_total_rows _ g X₂ y₂ w₂ hX₂ hw₂,
+    ← (dec_fit_rows_cols X₁ y₁ w₁ hX₁ hw₁).2.2, ← (dec_fit_rows_cols X₂ y₂ w₂ hX₂ hw₂).2.2,
+    (hperm.map _).sum_eq, (hperm.map _).sum_eq]
+
+omit [ScoreOps K] in
+/-- the observations `(y, w)` of permuted rows are permuted -/
+theorem dec_obs_perm {X₁ y₁ X₂ y₂ : List K} {w₁ w₂ : Option (List K)}
+    (hX₁ : X₁.length = y₁.length) (hX₂ : X₂.length = y₂.length)
+    (hw₁ : ∀ w', w₁ = some w' → w'.length = y₁.length)
+    (hw₂ : ∀ w', w₂ = some w' → w'.length = y₂.length)
+    (hperm : (fit_rows X₁ y₁ w₁).Perm (fit_rows X₂ y₂ w₂)) :
+    (y₁.zip (dec_wts y₁ w₁)).Perm (y₂.zip (dec_wts y₂ w₂)) ∧ y₁.Perm y₂ ∧ X₁.Perm X₂ := by
+  obtain ⟨a1, a2, a3⟩ := dec_fit_rows_cols X₁ y₁ w₁ hX₁ hw₁
+  obtain ⟨b1, b2, b3⟩ := dec_fit_rows_cols X₂ y₂ w₂ hX₂ hw₂
+  refine ⟨?_, ?_, ?_⟩
+  · have e1 : y₁.zip (dec_wts y₁ w₁) = (fit_rows X₁ y₁ w₁).map (fun a => (a.y, a.w)) := by
+      rw [← List.zip_map', a2, a3]
+    have e2 : y₂.zip (dec_wts y₂ w₂) = (fit_rows X₂ y₂ w₂).map (fun a => (a.y, a.w)) := by
+      rw [← List.zip_map', b2, b3]
+    rw [e1, e2]
+    exact hperm.map _
+  · rw [← a2, ← b2]; exact hperm.map _
+  · rw [← a1, ← b1]; exact hperm.map _
+
+omit [ScoreOps K] in
+/-- **the marginal does not depend on the row order** (for samples on which a fit succeeds) -/
+theorem dec_functionalVal_perm {f : Functional} {lv : K} {X₁ y₁ X₂ y₂ : List K}
+    {w₁ w₂ : Option (List K)} {tx ty tx' ty' : List K} (hm : f ≠ .median)
+    (hf₁ : isoFit (some f) lv true X₁ y₁ w₁ = .ok (tx, ty))
+    (hf₂ : isoFit (some f) lv true X₂ y₂ w₂ = .ok (tx', ty'))
+    (hperm : (fit_rows X₁ y₁ w₁).Perm (fit_rows X₂ y₂ w₂)) {m₁ m₂ : K}
+    (h₁ : functionalVal f lv y₁ w₁ = .ok m₁) (h₂ : functionalVal f lv y₂ w₂ = .ok m₂) :
+    m₁ = m₂ := by
+  obtain ⟨hX₁, hw₁, hne₁, hpos₁⟩ := dec_isoFit_ok_data hf₁
+  obtain ⟨hX₂, hw₂, hne₂, hpos₂⟩ := dec_isoFit_ok_data hf₂
+  obtain ⟨hF, hq₁⟩ := dec_isoFit_fitOK hm hf₁
+  obtain ⟨_, hq₂⟩ := dec_isoFit_fitOK hm hf₂
+  rw [dec_functionalVal_eq hq₁ hw₁ hne₁ hpos₁ h₁, dec_functionalVal_eq hq₂ hw₂ hne₂ hpos₂ h₂]
+  apply dec_T_perm hF (dec_obs_perm hX₁ hX₂ hw₁ hw₂ hperm).1
+  · intro he
+    have hl := congrArg List.length he
+    rw [zip_length_of_eq (dec_wts_length y₁ w₁ hw₁)] at hl
+    exact hne₁ (List.length_eq_zero_iff.mp hl)
+  · intro o ho
+    exact hpos₁ _ (List.of_mem_zip (a := o.1) (b := o.2) ho).2
+
+end PermMean
+
+
+section Repair
+variable {K : Type} [Field K] [LinearOrder K] [IsStrictOrderedRing K] [ScoreOps K] [Inhabited K]
+
+/-- the mask of `repair` as a predicate on the recalibrated value: everything when no value exceeds
+`ymin`, else the values up to the smallest value above `ymin` (the two lowest blocks) -/
+def dec_repairP (recal : List K) (ymin : K) : K → Bool :=
+  match recal.filter (fun v => decide (ymin < v)) with
+  | [] => fun _ => true
+  | g :: gs => fun v => decide (v ≤ gs.foldl min g)
+
+omit [ScoreOps K] [Inhabited K] in
+theorem dec_sel_self (P : K → Bool) (l : List K) :
+    (List.zip l (l.map P)).filterMap (fun p => if p.2 then some p.1 else none) = l.filter P := by
+  induction l with
+  | nil => rfl
+  | cons a l ih =>
+    simp only [List.map_cons, List.zip_cons_cons, List.filterMap_cons, List.filter_cons]
+    cases hP : P a <;> simp [ih]
+
+omit [ScoreOps K] [Inhabited K] in
+theorem dec_sel_other (P : K → Bool) (l w : List K) (h : w.length = l.length) :
+    (List.zip w (l.map P)).filterMap (fun p => if p.2 then some p.1 else none)
+      = ((l.zip w).filter (fun p => P p.1)).map (·.2) := by
+  induction l generalizing w with
+  | nil => simp
+  | cons a l ih =>
+    cases w with
+    | nil => simp at h
+    | cons b w =>
+      simp only [List.map_cons, List.zip_cons_cons, List.filterMap_cons, List.filter_cons]
+      cases hP : P a <;> simp [ih w (by simpa using h)]
+
+omit [ScoreOps K] [Inhabited K] in
+theorem dec_zipWith_mask (P : K → Bool) (v : K) (l : List K) :
+    List.zipWith (fun r (m : Bool) => if m then v else r) l (l.map P)
+      = l.map (fun r => if P r then v else r) := by
+  induction l with
+  | nil => rfl
+  | cons a l ih => simp only [List.map_cons, List.zipWith_cons_cons, ih]
+
+omit [ScoreOps K] [Inhabited K] in
+/-- **`repair` in closed form**: the rows whose recalibrated value satisfies `dec_repairP` are
+selected, the functional `v` of the selected rows is computed and written into exactly these rows -/
+theorem dec_repair_eq (f : Functional) (α : K) (recal : List K) (w : Option (List K)) (ymin : K)
+    (hw : ∀ w', w = some w' → w'.length = recal.length) :
+    repair f α recal w ymin
+      = (functionalVal f α (recal.filter (dec_repairP recal ymin))
+          (w.map (fun w' => ((recal.zip w').filter (fun p => dec_repairP recal ymin p.1)).map (·.2)))).map
+        (fun v => recal.map (fun r => if dec_repairP recal ymin r then v else r)) := by
+  have hmask : (match recal.filter (fun v => decide (ymin < v)) with
+      | [] => recal.map (fun _ => true)
+      | g :: gs => recal.map (fun v => decide (v ≤ gs.foldl min g)))
+      = recal.map (dec_repairP recal ymin) := by
+    unfold dec_repairP
+    cases recal.filter (fun v => decide (ymin < v)) <;> rfl
+  have hrep : ∀ mask : List Bool, mask = (match recal.filter (fun v => decide (ymin < v)) with
+      | [] => recal.map (fun _ => true)
+      | g :: gs => recal.map (fun v => decide (v ≤ gs.foldl min g))) →
+      repair f α recal w ymin
+        = (functionalVal f α
+            ((List.zip recal mask).filterMap (fun p => if p.2 then some p.1 else none))
+            (w.map (fun w' => (List.zip w' mask).filterMap (fun p => if p.2 then some p.1 else none)))
+          >>= fun v => pure (List.zipWith (fun r (m : Bool) => if m then v else r) recal mask)) := by
+    intro mask hm
+    subst hm
+    rfl
+  rw [hrep _ hmask.symm, dec_sel_self]
+  simp only [dec_zipWith_mask]
+  cases w with
+  | none =>
+    simp only [Option.map_none]
+    cases functionalVal f α (recal.filter (dec_repairP recal ymin)) none <;> rfl
+  | some w' =>
+    simp only [Option.map_some, dec_sel_other _ recal w' (hw w' rfl)]
+    cases functionalVal f α (recal.filter (dec_repairP recal ymin)) _ <;> rfl
+
+omit [ScoreOps K] in
+/-- the mask predicate does not depend on the order of the recalibrated values -/
+theorem dec_repairP_perm {r₁ r₂ : List K} (hp : r₁.Perm r₂) (ymin : K) :
+    dec_repairP r₁ ymin = dec_repairP r₂ ymin := by
+  have hf := hp.filter (fun v => decide (ymin < v))
+  unfold dec_repairP
+  cases h1 : r₁.filter (fun v => decide (ymin < v)) with
+  | nil =>
+    rw [h1] at hf
+    rw [hf.symm.eq_nil]
+  | cons g gs =>
+    rw [h1] at hf
+    cases h2 : r₂.filter (fun v => decide (ymin < v)) with
+    | nil => rw [h2] at hf; exact absurd hf.eq_nil (by simp)
+    | cons g' gs' =>
+      rw [h2] at hf
+      have := dec_lmin_perm hf (by simp)
+      simp only [List.getElem!_cons_zero, List.foldl_cons, min_self] at this
+      simp only [this]
+
+omit [ScoreOps K] [Inhabited K] in
+/-- the value of a successful `functionalVal` -/
+theorem dec_functionalVal_val {f : Functional} {lv : K} {ys : List K} {w : Option (List K)}
+    {marg : K} (hq : f ≠ .mean → f ≠ .expectile → w = none)
+    (h : functionalVal f lv ys w = .ok marg) : marg = dec_T f lv (ys.zip (dec_wts ys w)) := by
+  cases f with
+  | mean =>
+    simp only [functionalVal] at h
+    obtain ⟨hw, hv⟩ := dec_average_val (ys := ys) rfl h
+    rw [hv]
+    show _ = wysum _ / wsum _
+    rw [dec_wysum_zip, dec_wsum_zip _ _ (dec_wts_length ys w hw)]
+  | expectile =>
+    simp only [functionalVal] at h
+    rw [← Except.ok.inj h, dec_obsOf_eq]
+    rfl
+  | median =>
+    have := hq (by decide) (by decide)
+    subst this
+    simp only [functionalVal] at h
+    rw [← Except.ok.inj h, dec_obsOf_eq]
+    rfl
+  | quantile =>
+    have := hq (by decide) (by decide)
+    subst this
+    simp only [functionalVal] at h
+    rw [← Except.ok.inj h, dec_obsOf_eq]
+    rfl
+
+omit [ScoreOps K] [Inhabited K] in
+theorem dec_T_perm' {f : Functional} {α : K} (hf : FitOK f α) {d d' : List (Obs K)}
+    (hp : d.Perm d') (hpos : ∀ o ∈ d, 0 < o.2) : dec_T f α d = dec_T f α d' := by
+  by_cases hne : d = []
+  · subst hne; rw [hp.symm.eq_nil]
+  · exact dec_T_perm hf hp hne hpos
+
+omit [ScoreOps K] [Inhabited K] in
+/-- the selected observations of `repair`, as a filter of the zipped rows -/
+theorem dec_sel_obs (P : K → Bool) (recal : List K) (w : Option (List K))
+    (hw : ∀ w', w = some w' → w'.length = recal.length) :
+    (recal.filter P).zip (dec_wts (recal.filter P)
+        (w.map (fun w' => ((recal.zip w').filter (fun p => P p.1)).map (·.2))))
+      = (recal.zip (dec_wts recal w)).filter (fun p => P p.1) := by
+  cases w with
+  | none =>
+    simp only [Option.map_none, dec_wts]
+    induction recal with
+    | nil => rfl
+    | cons a l ih =>
+      have ih' := ih (fun w' hw' => by cases hw')
+      simp only [List.filter_cons, List.map_cons, List.zip_cons_cons]
+      cases hP : P a
+      · simpa using ih'
+      · simp only [if_true, List.map_cons, List.zip_cons_cons, ih']
+  | some w' =>
+    have hl := hw w' rfl
+    simp only [Option.map_some, dec_wts]
+    clear hw
+    induction recal generalizing w' with
+    | nil => simp
+    | cons a l ih =>
+      cases w' with
+      | nil => simp at hl
+      | cons b w' =>
+        have ih' := ih w' (by simpa using hl)
+        simp only [List.filter_cons, List.zip_cons_cons]
+        cases hP : P a
+        · simpa using ih'
+        · simp only [if_true, List.map_cons, List.zip_cons_cons, ih']
+
+omit [ScoreOps K] [Inhabited K] in
+theorem dec_map_ok {α β : Type} {m : Except Err α} {g : α → β} {b : β} (h : m.map g = .ok b) :
+    ∃ a, m = .ok a ∧ b = g a := by
+  cases m with
+  | error e => cases h
+  | ok a => exact ⟨a, rfl, (Except.ok.inj h).symm⟩
+
+omit [ScoreOps K] [Inhabited K] in
+theorem dec_zip_map_rows (g : K → K) (X y : List K) (w : Option (List K))
+    (hX : X.length = y.length) (hw : ∀ w', w = some w' → w'.length = y.length) :
+    (X.map g).zip (dec_wts (X.map g) w) = (fit_rows X y w).map (fun a => (g a.x, a.w)) := by
+  obtain ⟨a1, _, a3⟩ := dec_fit_rows_cols X y w hX hw
+  rw [dec_wts_congr w (show (X.map g).length = y.length by simpa using hX)]
+  have : (X.map g).zip (dec_wts y w)
+      = (((fit_rows X y w).map (·.x)).map g).zip ((fit_rows X y w).map (·.w)) := by rw [a1, a3]
+  rw [this, List.map_map, List.zip_map']
+  rfl
+
+/-- **Row order and recalibration** (domain repair included): for two samples whose rows are
+permutations of each other and whose `yminAllowed` flags agree, the recalibrated forecasts are the
+same function `G` of the forecast in both samples. -/
+theorem dec_recal_perm (sf : SF K) {f : Functional} {lv : K} (hm : f ≠ .median)
+    {X₁ y₁ X₂ y₂ : List K} {w₁ w₂ : Option (List K)} (hsome : w₁.isSome = w₂.isSome)
+    (hperm : (fit_rows X₁ y₁ w₁).Perm (fit_rows X₂ y₂ w₂))
+    (hflag : dec_yminAllowed sf y₁ w₁ = dec_yminAllowed sf y₂ w₂) {r₁ r₂ : List K}
+    (h₁ : dec_recal sf f lv y₁ w₁ X₁ = .ok r₁) (h₂ : dec_recal sf f lv y₂ w₂ X₂ = .ok r₂) :
+    ∃ G : K → K, r₁ = X₁.map G ∧ r₂ = X₂.map G := by
+  obtain ⟨tx, ty, hf₁, hc₁⟩ := (dec_recal_ok sf f lv y₁ w₁ X₁ r₁).mp h₁
+  obtain ⟨tx', ty', hf₂, hc₂⟩ := (dec_recal_ok sf f lv y₂ w₂ X₂ r₂).mp h₂
+  obtain ⟨hX₁, hw₁, hne₁, hpos₁⟩ := dec_isoFit_ok_data hf₁
+  obtain ⟨hX₂, hw₂, hne₂, hpos₂⟩ := dec_isoFit_ok_data hf₂
+  have hfe := fit_isoFit_row_order_free_general (some f) lv true X₁ y₁ X₂ y₂ w₁ w₂ hX₁ hX₂ hw₁ hw₂
+    hsome hperm
+  rw [hf₁, hf₂] at hfe
+  obtain ⟨rfl, rfl⟩ := Prod.mk.inj (Except.ok.inj hfe)
+  obtain ⟨hF, hq₁⟩ := dec_isoFit_fitOK hm hf₁
+  obtain ⟨_, hq₂⟩ := dec_isoFit_fitOK hm hf₂
+  obtain ⟨_, hyp, hXp⟩ := dec_obs_perm hX₁ hX₂ hw₁ hw₂ hperm
+  have hrp : (X₁.map (interp tx ty)).Perm (X₂.map (interp tx ty)) := hXp.map _
+  have hXne : X₁ ≠ [] := by
+    intro he; rw [he] at hX₁; exact hne₁ (List.length_eq_zero_iff.mp hX₁.symm)
+  have hymin : y₁.foldl min y₁[0]! = y₂.foldl min y₂[0]! := dec_lmin_perm hyp hne₁
+  have hrmin := dec_lmin_perm hrp (by simpa using hXne)
+  rw [← hflag, ← hymin, ← hrmin] at hc₂
+  by_cases hc : dec_yminAllowed sf y₁ w₁ = false ∧
+      (X₁.map (interp tx ty)).foldl min (X₁.map (interp tx ty))[0]! ≤ y₁.foldl min y₁[0]!
+  · rw [if_pos hc] at hc₁ hc₂
+    rw [dec_repair_eq _ _ _ _ _ (by intro w' hw'; rw [List.length_map, hX₁]; exact hw₁ w' hw')] at hc₁
+    rw [dec_repair_eq _ _ _ _ _ (by intro w' hw'; rw [List.length_map, hX₂]; exact hw₂ w' hw')] at hc₂
+    rw [← dec_repairP_perm hrp] at hc₂
+    obtain ⟨v₁, hv₁, e₁⟩ := dec_map_ok hc₁
+    obtain ⟨v₂, hv₂, e₂⟩ := dec_map_ok hc₂
+    have hq₁' : f ≠ .mean → f ≠ .expectile →
+        w₁.map (fun w' => (((X₁.map (interp tx ty)).zip w').filter
+          (fun p => dec_repairP (X₁.map (interp tx ty)) (y₁.foldl min y₁[0]!) p.1)).map (·.2)) = none := by
+      intro a b; rw [hq₁ a b]; rfl
+    have hq₂' : f ≠ .mean → f ≠ .expectile →
+        w₂.map (fun w' => (((X₂.map (interp tx ty)).zip w').filter
+          (fun p => dec_repairP (X₁.map (interp tx ty)) (y₁.foldl min y₁[0]!) p.1)).map (·.2)) = none := by
+      intro a b; rw [hq₂ a b]; rfl
+    have d₁ := dec_functionalVal_val hq₁' hv₁
+    have d₂ := dec_functionalVal_val hq₂' hv₂
+    rw [dec_sel_obs _ _ _ (by intro w' hw'; rw [List.length_map, hX₁]; exact hw₁ w' hw')] at d₁
+    rw [dec_sel_obs _ _ _ (by intro w' hw'; rw [List.length_map, hX₂]; exact hw₂ w' hw')] at d₂
+    have z₁ := dec_zip_map_rows (interp tx ty) X₁ y₁ w₁ hX₁ hw₁
+    have z₂ := dec_zip_map_rows (interp tx ty) X₂ y₂ w₂ hX₂ hw₂
+    have hvv : v₁ = v₂ := by
+      rw [d₁, d₂, z₁, z₂]
+      apply dec_T_perm' hF ((hperm.map _).filter _)
+      intro o ho
+      obtain ⟨a, ha, rfl⟩ := List.mem_map.mp (List.mem_filter.mp ho).1
+      have : a.w ∈ (fit_rows X₁ y₁ w₁).map (·.w) := List.mem_map.mpr ⟨a, ha, rfl⟩
+      rw [(dec_fit_rows_cols X₁ y₁ w₁ hX₁ hw₁).2.2] at this
+      exact hpos₁ _ this
+    refine ⟨fun q => if dec_repairP (X₁.map (interp tx ty)) (y₁.foldl min y₁[0]!) (interp tx ty q)
+      then v₁ else interp tx ty q, ?_, ?_⟩
+    · rw [e₁, List.map_map]; rfl
+    · rw [e₂, ← hvv, List.map_map]; rfl
+  · rw [if_neg hc] at hc₁ hc₂
+    exact ⟨interp tx ty, (Except.ok.inj hc₁).symm, (Except.ok.inj hc₂).symm⟩
+
+end Repair
+
+
+/-! ### the domain of a score object is a rectangle; `yminAllowed` -/
+section Rect
+variable {K : Type} [Field K] [LinearOrder K] [IsStrictOrderedRing K] [ScoreOps K] [Inhabited K]
+
+/-- an `Except` value is a success or a `ValueError` -/
+def dec_okOrValue {α : Type} (m : Except Err α) : Prop :=
+  (∃ v, m = .ok v) ∨ m = .error .valueError
+
+/-- the pairs `hes` accepts -/
+def dec_hesOK (h y z : K) : Prop :=
+  if eqK h two then True else if 1 < h then True
+  else if eqK h 1 then (0 ≤ y ∧ 0 < z) else if eqK h 0 then (0 < y ∧ 0 < z)
+  else if 0 < h then (0 ≤ y ∧ 0 < z) else (0 < y ∧ 0 < z)
+
+omit [Inhabited K] in
+theorem dec_hes_spec (h α y z : K) :
+    (dec_hesOK h y z → ∃ v, hes h α y z = .ok v) ∧
+    (¬ dec_hesOK h y z → hes h α y z = .error .valueError) := by
+  unfold dec_hesOK hes
+  by_cases c1 : eqK h two
+  · simp only [if_pos c1]
+    refine ⟨fun _ => ?_, fun hn => absurd trivial hn⟩
+    by_cases ca : eqK α half <;> simp only [ca, if_true, if_false, pure_bind] <;> exact ⟨_, rfl⟩
+  simp only [if_neg c1]
+  by_cases c2 : 1 < h
+  · simp only [if_pos c2]
+    refine ⟨fun _ => ?_, fun hn => absurd trivial hn⟩
+    by_cases ca : eqK α half <;> simp only [ca, if_true, if_false, pure_bind] <;> exact ⟨_, rfl⟩
+  simp only [if_neg c2]
+  have fin : ∀ (D : Prop) [Decidable D] (val : K),
+      (D → ∃ v, (if ¬ D then (do
+          let score ← (throw Err.valueError : Except Err K)
+          if eqK α half then pure score else pure (two * ScoreOps.abs (geInd z y - α) * score))
+        else (do
+          let score ← (pure val : Except Err K)
+          if eqK α half then pure score else pure (two * ScoreOps.abs (geInd z y - α) * score)))
+          = Except.ok v) ∧
+      (¬ D → (if ¬ D then (do
+          let score ← (throw Err.valueError : Except Err K)
+          if eqK α half then pure score else pure (two * ScoreOps.abs (geInd z y - α) * score))
+        else (do
+          let score ← (pure val : Except Err K)
+          if eqK α half then pure score else pure (two * ScoreOps.abs (geInd z y - α) * score)))
+          = Except.error Err.valueError) := by
+    intro D _ val
+    constructor
+    · intro hD
+      rw [if_neg (not_not.mpr hD)]
+      by_cases ca : eqK α half <;> simp only [ca, if_true, if_false, pure_bind] <;> exact ⟨_, rfl⟩
+    · intro hD
+      rw [if_pos hD]
+      rfl
+  by_cases c3 : eqK h 1
+  · simp only [if_pos c3]
+    exact fin (0 ≤ y ∧ 0 < z) _
+  simp only [if_neg c3]
+  by_cases c4 : eqK h 0
+  · simp only [if_pos c4]
+    exact fin (0 < y ∧ 0 < z) _
+  simp only [if_neg c4]
+  by_cases c5 : 0 < h
+  · simp only [if_pos c5]
+    exact fin (0 ≤ y ∧ 0 < z) _
+  · simp only [if_neg c5]
+    exact fin (0 < y ∧ 0 < z) _
+
+/-- the pairs `hqs` accepts -/
+def dec_hqsOK (h y z : K) : Prop :=
+  if eqK h 1 then True else if 1 < h ∧ ScoreOps.oddInt h then True else (0 < y ∧ 0 < z)
+
+omit [Inhabited K] in
+theorem dec_hqs_spec (h α y z : K) :
+    (dec_hqsOK h y z → ∃ v, hqs h α y z = .ok v) ∧
+    (¬ dec_hqsOK h y z → hqs h α y z = .error .valueError) := by
+  unfold dec_hqsOK hqs
+  by_cases c1 : eqK h 1
+  · simp only [if_pos c1]
+    refine ⟨fun _ => ?_, fun hn => absurd trivial hn⟩
+    by_cases ca : eqK α half <;> simp only [ca, if_true, if_false, pure_bind] <;> exact ⟨_, rfl⟩
+  simp only [if_neg c1]
+  by_cases c2 : 1 < h ∧ ScoreOps.oddInt h
+  · simp only [if_pos c2]
+    refine ⟨fun _ => ?_, fun hn => absurd trivial hn⟩
+    by_cases ca : eqK α half <;> simp only [ca, if_true, if_false, pure_bind] <;> exact ⟨_, rfl⟩
+  simp only [if_neg c2]
+  have fin : ∀ (D : Prop) [Decidable D] (val : K),
+      (D → ∃ v, (if ¬ D then (do
+          let score ← (throw Err.valueError : Except Err K)
+          if eqK α half then pure (half * ScoreOps.abs score) else pure ((geInd z y - α) * score))
+        else (do
+          let score ← (pure val : Except Err K)
+          if eqK α half then pure (half * ScoreOps.abs score) else pure ((geInd z y - α) * score)))
+          = Except.ok v) ∧
+      (¬ D → (if ¬ D then (do
+          let score ← (throw Err.valueError : Except Err K)
+          if eqK α half then pure (half * ScoreOps.abs score) else pure ((geInd z y - α) * score))
+        else (do
+          let score ← (pure val : Except Err K)
+          if eqK α half then pure (half * ScoreOps.abs score) else pure ((geInd z y - α) * score)))
+          = Except.error Err.valueError) := by
+    intro D _ val
+    constructor
+    · intro hD
+      rw [if_neg (not_not.mpr hD)]
+      by_cases ca : eqK α half <;> simp only [ca, if_true, if_false, pure_bind] <;> exact ⟨_, rfl⟩
+    · intro hD
+      rw [if_pos hD]
+      rfl
+  by_cases c3 : eqK h 0
+  · simp only [if_pos c3]
+    exact fin (0 < y ∧ 0 < z) _
+  · simp only [if_neg c3]
+    exact fin (0 < y ∧ 0 < z) _
+
+omit [Inhabited K] in
+theorem dec_hesOK_rect (h : K) {y z y' z' : K} (a : dec_hesOK h y z) (b : dec_hesOK h y' z') :
+    dec_hesOK h y z' := by
+  unfold dec_hesOK at *
+  split_ifs at * <;> first | trivial | exact ⟨a.1, b.2⟩
+
+omit [Inhabited K] in
+theorem dec_hqsOK_rect (h : K) {y z y' z' : K} (a : dec_hqsOK h y z) (b : dec_hqsOK h y' z') :
+    dec_hqsOK h y z' := by
+  unfold dec_hqsOK at *
+  split_ifs at *
+  all_goals first | trivial | exact ⟨a.1, b.2⟩
+
+/-- the pairs a score object accepts -/
+def dec_sfOK (sf : SF K) (y z : K) : Prop :=
+  match sf.elem with
+  | some (f, _) => ¬ (sf.α ≤ 0 ∨ 1 ≤ sf.α) ∧ f ≠ none
+  | none => match sf.kind with
+    | .hes => levelOk sf.α ∧ dec_hesOK sf.h y z
+    | .hqs => levelOk sf.α ∧ dec_hqsOK sf.h y z
+    | .logloss => True
+    | .squaredError => dec_hesOK two y z
+    | .poisson => dec_hesOK 1 y z
+    | .gamma => dec_hesOK 0 y z
+    | .pinball => levelOk sf.α ∧ dec_hqsOK 1 y z
+
+omit [Inhabited K] in
+theorem dec_elemScore_spec (f : Option Functional) (α η y z : K) :
+    ((¬ (α ≤ 0 ∨ 1 ≤ α) ∧ f ≠ none) → ∃ v, elemScore f α η y z = .ok v) ∧
+    (¬ (¬ (α ≤ 0 ∨ 1 ≤ α) ∧ f ≠ none) → elemScore f α η y z = .error .valueError) := by
+  unfold elemScore
+  by_cases c : α ≤ 0 ∨ 1 ≤ α
+  · rw [if_pos c]
+    exact ⟨fun h => absurd c h.1, fun _ => rfl⟩
+  rw [if_neg c]
+  cases f with
+  | none =>
+    refine ⟨fun h => absurd rfl h.2, fun _ => ?_⟩
+    simp [identFn]
+    rfl
+  | some f =>
+    refine ⟨fun _ => ?_, fun h => absurd ⟨c, by simp⟩ h⟩
+    cases f <;> simp [identFn, c] <;> exact ⟨_, rfl⟩
+
+omit [Inhabited K] in
+/-- **every score object accepts exactly the pairs in `dec_sfOK` and otherwise raises `ValueError`** -/
+theorem dec_sfPair_spec (sf : SF K) (y z : K) :
+    (dec_sfOK sf y z → ∃ v, sfPair sf y z = .ok v) ∧
+    (¬ dec_sfOK sf y z → sfPair sf y z = .error .valueError) := by
+  unfold dec_sfOK sfPair
+  cases he : sf.elem with
+  | some p =>
+    obtain ⟨f, η⟩ := p
+    exact dec_elemScore_spec f sf.α η y z
+  | none =>
+    simp only
+    unfold scorePair
+    cases sf.kind with
+    | hes =>
+      simp only
+      by_cases hl : levelOk sf.α
+      · rw [if_pos hl]
+        obtain ⟨h1, h2⟩ := dec_hes_spec sf.h sf.α y z
+        exact ⟨fun h => h1 h.2, fun h => h2 (fun h' => h ⟨hl, h'⟩)⟩
+      · rw [if_neg hl]
+        exact ⟨fun h => absurd h.1 hl, fun _ => rfl⟩
+    | hqs =>
+      simp only
+      by_cases hl : levelOk sf.α
+      · rw [if_pos hl]
+        obtain ⟨h1, h2⟩ := dec_hqs_spec sf.h sf.α y z
+        exact ⟨fun h => h1 h.2, fun h => h2 (fun h' => h ⟨hl, h'⟩)⟩
+      · rw [if_neg hl]
+        exact ⟨fun h => absurd h.1 hl, fun _ => rfl⟩
+    | logloss => exact ⟨fun _ => ⟨_, rfl⟩, fun h => absurd trivial h⟩
+    | squaredError => exact dec_hes_spec two half y z
+    | poisson => exact dec_hes_spec 1 half y z
+    | gamma => exact dec_hes_spec 0 half y z
+    | pinball =>
+      simp only
+      by_cases hl : levelOk sf.α
+      · rw [if_pos hl]
+        obtain ⟨h1, h2⟩ := dec_hqs_spec 1 sf.α y z
+        exact ⟨fun h => h1 h.2, fun h => h2 (fun h' => h ⟨hl, h'⟩)⟩
+      · rw [if_neg hl]
+        exact ⟨fun h => absurd h.1 hl, fun _ => rfl⟩
+
+omit [Inhabited K] in
+/-- the accepted pairs form a rectangle: admissibility of `y` and of `z` are separate conditions -/
+theorem dec_sfOK_rect (sf : SF K) {y z y' z' : K} (a : dec_sfOK sf y z) (b : dec_sfOK sf y' z') :
+    dec_sfOK sf y z' := by
+  unfold dec_sfOK at *
+  cases he : sf.elem with
+  | some p => rw [he] at a; exact a
+  | none =>
+    rw [he] at a b
+    simp only at a b ⊢
+    cases hk : sf.kind with
+    | hes => rw [hk] at a b; exact ⟨a.1, dec_hesOK_rect _ a.2 b.2⟩
+    | hqs => rw [hk] at a b; exact ⟨a.1, dec_hqsOK_rect _ a.2 b.2⟩
+    | logloss => trivial
+    | squaredError => rw [hk] at a b; exact dec_hesOK_rect _ a b
+    | poisson => rw [hk] at a b; exact dec_hesOK_rect _ a b
+    | gamma => rw [hk] at a b; exact dec_hesOK_rect _ a b
+    | pinball => rw [hk] at a b; exact ⟨a.1, dec_hqsOK_rect _ a.2 b.2⟩
+
+/-- **`yminAllowed`** says exactly that `(y[0], min y)` is an accepted pair -/
+theorem dec_yminAllowed_iff (sf : SF K) (ys : List K) (w : Option (List K)) :
+    dec_yminAllowed sf ys w = true ↔ dec_sfOK sf ys[0]! (ys.foldl min ys[0]!) := by
+  obtain ⟨h1, h2⟩ := dec_sfPair_spec sf ys[0]! (ys.foldl min ys[0]!)
+  constructor
+  · intro hf
+    by_contra hn
+    have he := h2 hn
+    have : sfMean sf [ys[0]!] [ys.foldl min ys[0]!] (w.map (fun w' => w'.take 1))
+        = .error .valueError := by
+      unfold sfMean
+      rw [if_neg (by simp)]
+      show (List.mapM (fun p : K × K => sfPair sf p.1 p.2) [(ys[0]!, ys.foldl min ys[0]!)]
+        >>= fun s => average s _) = _
+      rw [dec_mapM_single, he]
+      rfl
+    unfold dec_yminAllowed at hf
+    rw [this] at hf
+    cases hf
+  · intro hok
+    obtain ⟨v, hv⟩ := h1 hok
+    exact dec_yminAllowed_of_ok sf ys w v hv
+
+/-- a successful average score means every pair is accepted -/
+theorem dec_sfMean_pairs_ok {sf : SF K} {ys zs : List K} {w : Option (List K)} {s : K}
+    (h : sfMean sf ys zs w = .ok s) : ∀ p ∈ ys.zip zs, dec_sfOK sf p.1 p.2 := by
+  obtain ⟨_, _, hp, _⟩ := dec_sfMean_val h
+  intro p hpm
+  obtain ⟨v, hv⟩ := hp p hpm
+  by_contra hn
+  rw [(dec_sfPair_spec sf p.1 p.2).2 hn] at hv
+  cases hv
+
+/-- **the `yminAllowed` flag does not depend on the row order** when the forecasts can be scored
+at all in both arrangements -/
+theorem dec_flags_eq (sf : SF K) {X₁ y₁ X₂ y₂ : List K} {w₁ w₂ : Option (List K)}
+    (hyp : y₁.Perm y₂) (hne : y₁ ≠ []) {s₁ s₂ : K} (h₁ : sfMean sf y₁ X₁ w₁ = .ok s₁)
+    (h₂ : sfMean sf y₂ X₂ w₂ = .ok s₂) :
+    dec_yminAllowed sf y₁ w₁ = dec_yminAllowed sf y₂ w₂ := by
+  have hne₂ : y₂ ≠ [] := by
+    intro he; rw [he] at hyp; exact hne hyp.eq_nil
+  have hymin := dec_lmin_perm hyp hne
+  have key : ∀ {X y : List K} {w : Option (List K)} {s : K}, y ≠ [] → sfMean sf y X w = .ok s →
+      ∃ z, dec_sfOK sf y[0]! z := by
+    intro X y w s hy hs
+    obtain ⟨hl, _, _, _⟩ := dec_sfMean_val hs
+    have hp := dec_sfMean_pairs_ok hs
+    cases y with
+    | nil => exact absurd rfl hy
+    | cons a t =>
+      cases X with
+      | nil => simp at hl
+      | cons b u => exact ⟨b, by simpa using hp (a, b) (by simp)⟩
+  obtain ⟨z₁, hz₁⟩ := key hne h₁
+  obtain ⟨z₂, hz₂⟩ := key hne₂ h₂
+  rw [Bool.eq_iff_iff, dec_yminAllowed_iff, dec_yminAllowed_iff, ← hymin]
+  exact ⟨fun h => dec_sfOK_rect sf hz₂ h, fun h => dec_sfOK_rect sf hz₁ h⟩
+
+end Rect
+
+/-! ### the decomposition and the row order -/
+section PermMain
+variable {K : Type} [Field K] [LinearOrder K] [IsStrictOrderedRing K] [ScoreOps K] [Inhabited K]
+
+/-- **the decomposition does not depend on the row order** (one column; both calls succeed; equal
+`yminAllowed` flags) -/
+theorem dec_decompose_perm (sf : SF K) (fn : Option (Option Functional)) (lv : Option K)
+    {X₁ y₁ X₂ y₂ : List K} {w₁ w₂ : Option (List K)} (hsome : w₁.isSome = w₂.isSome)
+    (hperm : (fit_rows X₁ y₁ w₁).Perm (fit_rows X₂ y₂ w₂))
+    (hflag : dec_yminAllowed sf y₁ w₁ = dec_yminAllowed sf y₂ w₂) {r₁ r₂ : DecompRow K}
+    (h₁ : decompose sf fn lv y₁ [X₁] w₁ = .ok [r₁]) (h₂ : decompose sf fn lv y₂ [X₂] w₂ = .ok [r₂]) :
+    r₁ = r₂ := by
+  obtain ⟨f, lv', marg₁, sm₁, hv, _, hm₁, hrows₁⟩ := (dec_ok_iff sf fn lv y₁ [X₁] w₁ [r₁]).mp h₁
+  obtain ⟨f', lv'', marg₂, sm₂, hv', _, hm₂, hrows₂⟩ := (dec_ok_iff sf fn lv y₂ [X₂] w₂ [r₂]).mp h₂
+  rw [hv] at hv'
+  cases hv'
+  have hmed := dec_validate_ne_median hv
+  have hrow₁ : dec_row sf f lv' y₁ w₁ sm₁ X₁ = .ok r₁ :=
+    dec_mapM_get hrows₁ 0 (by simp) (by simp)
+  have hrow₂ : dec_row sf f lv' y₂ w₂ sm₂ X₂ = .ok r₂ :=
+    dec_mapM_get hrows₂ 0 (by simp) (by simp)
+  obtain ⟨rc₁, s₁, sR₁, hrec₁, hs₁, hsR₁, rfl⟩ := (dec_row_ok sf f lv' y₁ w₁ sm₁ X₁ r₁).mp hrow₁
+  obtain ⟨rc₂, s₂, sR₂, hrec₂, hs₂, hsR₂, rfl⟩ := (dec_row_ok sf f lv' y₂ w₂ sm₂ X₂ r₂).mp hrow₂
+  obtain ⟨tx, ty, hf₁, _⟩ := (dec_recal_ok sf f lv' y₁ w₁ X₁ rc₁).mp hrec₁
+  obtain ⟨tx', ty', hf₂, _⟩ := (dec_recal_ok sf f lv' y₂ w₂ X₂ rc₂).mp hrec₂
+  obtain ⟨hX₁, _, _, _⟩ := dec_isoFit_ok_data hf₁
+  obtain ⟨hX₂, _, _, _⟩ := dec_isoFit_ok_data hf₂
+  obtain ⟨G, rfl, rfl⟩ := dec_recal_perm sf hmed hsome hperm hflag hrec₁ hrec₂
+  obtain ⟨hma₁, hsm₁⟩ := dec_marginal_ok hm₁
+  obtain ⟨hma₂, hsm₂⟩ := dec_marginal_ok hm₂
+  have emarg : marg₁ = marg₂ := dec_functionalVal_perm hmed hf₁ hf₂ hperm hma₁ hma₂
+  subst emarg
+  have es : s₁ = s₂ := by
+    have a₁ : sfMean sf y₁ (X₁.map id) w₁ = .ok s₁ := by rw [List.map_id]; exact hs₁
+    have a₂ : sfMean sf y₂ (X₂.map id) w₂ = .ok s₂ := by rw [List.map_id]; exact hs₂
+    exact dec_sfMean_perm sf id hX₁ hX₂ hperm a₁ a₂
+  have esR : sR₁ = sR₂ := dec_sfMean_perm sf G hX₁ hX₂ hperm hsR₁ hsR₂
+  have esm : sm₁ = sm₂ := by
+    have a₁ : sfMean sf y₁ (X₁.map fun _ => marg₁) w₁ = .ok sm₁ := by
+      rw [List.map_const', hX₁, ← List.map_const']; exact hsm₁
+    have a₂ : sfMean sf y₂ (X₂.map fun _ => marg₁) w₂ = .ok sm₂ := by
+      rw [List.map_const', hX₂, ← List.map_const']; exact hsm₂
+    exact dec_sfMean_perm sf (fun _ => marg₁) hX₁ hX₂ hperm a₁ a₂
+  rw [es, esR, esm]
+
+/-- … and the flags agree automatically: **the decomposition does not depend on the row order**,
+domain repair included (one column; both calls succeed) -/
+theorem dec_decompose_perm' (sf : SF K) (fn : Option (Option Functional)) (lv : Option K)
+    {X₁ y₁ X₂ y₂ : List K} {w₁ w₂ : Option (List K)} (hsome : w₁.isSome = w₂.isSome)
+    (hperm : (fit_rows X₁ y₁ w₁).Perm (fit_rows X₂ y₂ w₂)) {r₁ r₂ : DecompRow K}
+    (h₁ : decompose sf fn lv y₁ [X₁] w₁ = .ok [r₁]) (h₂ : decompose sf fn lv y₂ [X₂] w₂ = .ok [r₂]) :
+    r₁ = r₂ := by
+  obtain ⟨f, lv', marg₁, sm₁, _, hs₁, _, hrows₁⟩ := (dec_ok_iff sf fn lv y₁ [X₁] w₁ [r₁]).mp h₁
+  obtain ⟨f', lv'', marg₂, sm₂, _, hs₂, _, hrows₂⟩ := (dec_ok_iff sf fn lv y₂ [X₂] w₂ [r₂]).mp h₂
+  obtain ⟨_, sc₁, _, _, hsc₁, _, _⟩ := (dec_row_ok sf f lv' y₁ w₁ sm₁ X₁ r₁).mp
+    (dec_mapM_get hrows₁ 0 (by simp) (by simp))
+  obtain ⟨_, sc₂, _, _, hsc₂, _, _⟩ := (dec_row_ok sf f' lv'' y₂ w₂ sm₂ X₂ r₂).mp
+    (dec_mapM_get hrows₂ 0 (by simp) (by simp))
+  obtain ⟨hc₁, hw₁, hne₁⟩ := (dec_shape_ok y₁ [X₁] w₁).mp hs₁
+  obtain ⟨hc₂, hw₂, _⟩ := (dec_shape_ok y₂ [X₂] w₂).mp hs₂
+  have hyp := (dec_obs_perm (hc₁ X₁ (by simp)) (hc₂ X₂ (by simp)) hw₁ hw₂ hperm).2.1
+  exact dec_decompose_perm sf fn lv hsome hperm (dec_flags_eq sf hyp hne₁ hsc₁ hsc₂) h₁ h₂
+
+end PermMain
+
+
+/-! ## D. Strictly increasing relabelling of the forecasts -/
+section Relabel
+variable {K : Type} [Field K] [LinearOrder K] [IsStrictOrderedRing K] [ScoreOps K] [Inhabited K]
+
+/-- relabel the forecast of a row -/
+def dec_relabel (φ : K → K) (a : Row K) : Row K := ⟨φ a.x, a.y, a.w⟩
+
+omit [ScoreOps K] [Inhabited K] in
+theorem dec_zipRows_relabel (φ : K → K) (X y ws : List K) :
+    List.zipWith (fun (p : K × K) v => (⟨p.1, p.2, v⟩ : Row K)) (List.zip (X.map φ) y) ws
+      = (List.zipWith (fun (p : K × K) v => (⟨p.1, p.2, v⟩ : Row K)) (List.zip X y) ws).map
+          (dec_relabel φ) := by
+  induction X generalizing y ws with
+  | nil => simp
+  | cons a X ih =>
+    cases y with
+    | nil => simp
+    | cons b y =>
+      cases ws with
+      | nil => simp
+      | cons c ws =>
+        simp only [List.map_cons, List.zip_cons_cons, List.zipWith_cons_cons, ih y ws]
+        rfl
+
+omit [ScoreOps K] [Inhabited K] in
+theorem dec_fit_rows_relabel (φ : K → K) (X y : List K) (w : Option (List K)) :
+    fit_rows (X.map φ) y w = (fit_rows X y w).map (dec_relabel φ) := by
+  unfold fit_rows
+  exact dec_zipRows_relabel φ X y _
+
+omit [ScoreOps K] [Inhabited K] in
+theorem dec_fit_sorted_relabel {φ : K → K} (hφ : StrictMono φ) (inc : Bool) (X y : List K)
+    (w : Option (List K)) :
+    fit_sorted inc (X.map φ) y w = (fit_sorted inc X y w).map (dec_relabel φ) := by
+  unfold fit_sorted
+  rw [dec_fit_rows_relabel]
+  symm
+  apply List.map_mergeSort
+  intro a _ b _
+  simp only [rowLe, dec_relabel, hφ.lt_iff_lt]
+  rfl
+
+omit [ScoreOps K] in
+/-- **Strictly increasing relabelling of the forecasts does not change the recalibrated forecasts**:
+the model fitted on `(φ∘X, y, w)` and evaluated at `φ∘X` gives the same values as the model fitted
+on `(X, y, w)` and evaluated at `X`.  (At the training points only: between them the two prediction
+functions interpolate on different scales.) -/
+theorem dec_recal_relabel {f : Functional} {lv : K} {φ : K → K} (hφ : StrictMono φ)
+    {X y : List K} {w : Option (List K)} {tx ty tx' ty' : List K}
+    (h : isoFit (some f) lv true X y w = .ok (tx, ty))
+    (h' : isoFit (some f) lv true (X.map φ) y w = .ok (tx', ty')) :
+    (X.map φ).map (interp tx' ty') = X.map (interp tx ty) := by
+  obtain ⟨yiso, r, hr⟩ := fit_isoFit_exists h
+  obtain ⟨yiso', r', hr'⟩ := fit_isoFit_exists h'
+  have hs := dec_fit_sorted_relabel hφ true X y w
+  have e1 : (fit_sorted true (X.map φ) y w).map (·.y) = (fit_sorted true X y w).map (·.y) := by
+    rw [hs, List.map_map]; rfl
+  have e2 : (fit_sorted true (X.map φ) y w).map (·.w) = (fit_sorted true X y w).map (·.w) := by
+    rw [hs, List.map_map]; rfl
+  have hr'' := hr'
+  rw [e1, e2, hr] at hr''
+  obtain ⟨rfl, rfl⟩ := Prod.mk.inj (Except.ok.inj hr'')
+  have F' := fit_isoFit_fitted h' hr'
+  rw [List.map_map]
+  apply List.map_congr_left
+  intro q hq
+  obtain ⟨k, hk, rfl⟩ := List.getElem_of_mem hq
+  obtain ⟨p, hp, _, hx, he⟩ := fit_isoFit_train_orig h hr k hk
+  rw [fit_get! X k hk] at he hx
+  have hpl : p < (fit_sorted true X y w).length := by
+    have := (fit_isoFit_fitted h hr).len
+    rw [List.length_map] at this
+    omega
+  have hx' : ((fit_sorted true (X.map φ) y w).map (·.x))[p]! = φ X[k] := by
+    rw [hs, List.map_map, fit_get! _ p (by simpa using hpl), List.getElem_map]
+    rw [fit_get! _ p (by simpa using hpl), List.getElem_map] at hx
+    show φ ((fit_sorted true X y w)[p]).x = _
+    rw [hx]
+  show interp tx' ty' (φ X[k]) = _
+  rw [he, ← hx']
+  exact F'.train p hp
+
+/-- the recalibration stage of `decompose` (repair included) does not see a strictly increasing
+relabelling of the forecasts -/
+theorem dec_dec_recal_relabel (sf : SF K) {f : Functional} {lv : K} {φ : K → K} (hφ : StrictMono φ)
+    {X y : List K} {w : Option (List K)} {rc rc' : List K}
+    (h : dec_recal sf f lv y w X = .ok rc) (h' : dec_recal sf f lv y w (X.map φ) = .ok rc') :
+    rc = rc' := by
+  obtain ⟨tx, ty, hf, hc⟩ := (dec_recal_ok sf f lv y w X rc).mp h
+  obtain ⟨tx', ty', hf', hc'⟩ := (dec_recal_ok sf f lv y w (X.map φ) rc').mp h'
+  rw [dec_recal_relabel hφ hf hf', hc] at hc'
+  exact Except.ok.inj hc'
+
+/-- **`dsc` and `unc` are invariant under strictly increasing transformations of the forecasts**
+(one column; both calls succeed) -/
+theorem dec_decompose_relabel (sf : SF K) (fn : Option (Option Functional)) (lv : Option K)
+    {φ : K → K} (hφ : StrictMono φ) {X y : List K} {w : Option (List K)} {r r' : DecompRow K}
+    (h : decompose sf fn lv y [X] w = .ok [r])
+    (h' : decompose sf fn lv y [X.map φ] w = .ok [r']) : r.dsc = r'.dsc ∧ r.unc = r'.unc := by
+  obtain ⟨f, lv', marg, sm, hv, _, hm, hrows⟩ := (dec_ok_iff sf fn lv y [X] w [r]).mp h
+  obtain ⟨f', lv'', marg', sm', hv', _, hm', hrows'⟩ :=
+    (dec_ok_iff sf fn lv y [X.map φ] w [r']).mp h'
+  rw [hv] at hv'
+  cases hv'
+  rw [hm] at hm'
+  cases hm'
+  obtain ⟨rc, s, sR, hrec, _, hsR, rfl⟩ := (dec_row_ok sf f lv' y w sm X r).mp
+    (dec_mapM_get hrows 0 (by simp) (by simp))
+  obtain ⟨rc', s', sR', hrec', _, hsR', rfl⟩ := (dec_row_ok sf f lv' y w sm (X.map φ) r').mp
+    (dec_mapM_get hrows' 0 (by simp) (by simp))
+  have := dec_dec_recal_relabel sf hφ hrec hrec'
+  subst this
+  rw [hsR] at hsR'
+  cases hsR'
+  exact ⟨rfl, rfl⟩
+
+omit [ScoreOps K] in
+/-- the fit succeeds on the relabelled forecasts as well -/
+theorem dec_isoFit_relabel_ok {f : Functional} {lv : K} {φ : K → K} (hφ : StrictMono φ)
+    {X y : List K} {w : Option (List K)} {tx ty : List K}
+    (h : isoFit (some f) lv true X y w = .ok (tx, ty)) :
+    ∃ tx' ty', isoFit (some f) lv true (X.map φ) y w = .ok (tx', ty') := by
+  obtain ⟨hX, hw, _⟩ := fit_isoFit_inv h
+  obtain ⟨yiso, r, hr⟩ := fit_isoFit_exists h
+  have hs := dec_fit_sorted_relabel hφ true X y w
+  have e1 : (fit_sorted true (X.map φ) y w).map (·.y) = (fit_sorted true X y w).map (·.y) := by
+    rw [hs, List.map_map]; rfl
+  have e2 : (fit_sorted true (X.map φ) y w).map (·.w) = (fit_sorted true X y w).map (·.w) := by
+    rw [hs, List.map_map]; rfl
+  rw [fit_isoFit_eq (some f) lv true (X.map φ) y w (by simpa using hX) hw, e1, e2, hr]
+  exact ⟨_, _, rfl⟩
+
+/-- … and so does `decompose`, provided the relabelled forecasts can be scored -/
+theorem dec_decompose_relabel_ok (sf : SF K) (fn : Option (Option Functional)) (lv : Option K)
+    {φ : K → K} (hφ : StrictMono φ) {X y : List K} {w : Option (List K)} {r : DecompRow K}
+    (h : decompose sf fn lv y [X] w = .ok [r]) {s' : K}
+    (hs' : sfMean sf y (X.map φ) w = .ok s') :
+    ∃ r', decompose sf fn lv y [X.map φ] w = .ok [r'] := by
+  obtain ⟨f, lv', marg, sm, hv, hsh, hm, hrows⟩ := (dec_ok_iff sf fn lv y [X] w [r]).mp h
+  obtain ⟨rc, s, sR, hrec, _, hsR, rfl⟩ := (dec_row_ok sf f lv' y w sm X r).mp
+    (dec_mapM_get hrows 0 (by simp) (by simp))
+  obtain ⟨tx, ty, hf, hc⟩ := (dec_recal_ok sf f lv' y w X rc).mp hrec
+  obtain ⟨tx', ty', hf'⟩ := dec_isoFit_relabel_ok hφ hf
+  have hrec' : dec_recal sf f lv' y w (X.map φ) = .ok rc := by
+    refine (dec_recal_ok sf f lv' y w (X.map φ) rc).mpr ⟨tx', ty', hf', ?_⟩
+    rw [dec_recal_relabel hφ hf hf']
+    exact hc
+  refine ⟨⟨s' - sR, sm - sR, sm, s'⟩, (dec_ok_iff sf fn lv y [X.map φ] w _).mpr
+    ⟨f, lv', marg, sm, hv, ?_, hm, ?_⟩⟩
+  · obtain ⟨h1, h2, h3⟩ := (dec_shape_ok y [X] w).mp hsh
+    refine (dec_shape_ok y [X.map φ] w).mpr ⟨?_, h2, h3⟩
+    intro c hc'
+    rw [List.mem_singleton] at hc'
+    rw [hc', List.length_map]
+    exact h1 X (by simp)
+  · rw [dec_mapM_single, (dec_row_ok sf f lv' y w sm (X.map φ) _).mpr
+      ⟨rc, s', sR, hrec', hs', hsR, rfl⟩]
+    rfl
+
+end Relabel
+
+
+/-! ### the marginal is the best constant -/
+section BestConst
+variable {K : Type} [Field K] [LinearOrder K] [IsStrictOrderedRing K] [ScoreOps K] [Inhabited K]
+
+omit [ScoreOps K] in
+/-- whether `fit` succeeds does not depend on the forecasts (only on functional, level, weights and
+the number of rows) -/
+theorem dec_isoFit_ok_transfer {f : Functional} {lv : K} {X y : List K} {w : Option (List K)}
+    {tx ty : List K} (h : isoFit (some f) lv true X y w = .ok (tx, ty)) (X' : List K)
+    (hX' : X'.length = y.length) : ∃ tx' ty', isoFit (some f) lv true X' y w = .ok (tx', ty') := by
+  obtain ⟨hX, hw, _⟩ := fit_isoFit_inv h
+  obtain ⟨yiso, r, hr⟩ := fit_isoFit_exists h
+  obtain ⟨v, hv, _, _⟩ := isoReg_inv hr
+  have hlen : ∀ X₀ : List K, X₀.length = y.length → (fit_sorted true X₀ y w).length = y.length := by
+    intro X₀ h₀
+    have hperm : (fit_sorted true X₀ y w).Perm (fit_rows X₀ y w) := List.mergeSort_perm _ _
+    have := congrArg List.length (dec_fit_rows_cols X₀ y w h₀ hw).2.1
+    rw [List.length_map] at this
+    rw [hperm.length_eq, this]
+  have hyl : ((fit_sorted true X' y w).map (·.y)).length = ((fit_sorted true X y w).map (·.y)).length := by
+    rw [List.length_map, List.length_map, hlen X' hX', hlen X hX]
+  have hval : ∃ v', eqValidate (some f) lv ((fit_sorted true X' y w).map (·.y))
+      (w.map (fun _ => (fit_sorted true X' y w).map (·.w))) = .ok v' := by
+    rw [eqValidate_congr_length (some f) lv _ hyl]
+    cases w with
+    | none => exact ⟨v, hv⟩
+    | some w' =>
+      simp only [Option.map_some] at hv ⊢
+      have hp : ((fit_sorted true X y (some w')).map (·.w)).Perm
+          ((fit_sorted true X' y (some w')).map (·.w)) := by
+        have p1 : ((fit_sorted true X y (some w')).map (·.w)).Perm (dec_wts y (some w')) := by
+          rw [← (dec_fit_rows_cols X y (some w') hX hw).2.2]
+          exact (List.mergeSort_perm _ _).map _
+        have p2 : ((fit_sorted true X' y (some w')).map (·.w)).Perm (dec_wts y (some w')) := by
+          rw [← (dec_fit_rows_cols X' y (some w') hX' hw).2.2]
+          exact (List.mergeSort_perm _ _).map _
+        exact p1.trans p2.symm
+      rw [fit_eqValidate_perm (some f) lv _ hp, hv]
+      exact ⟨_, rfl⟩
+  obtain ⟨v', hv'⟩ := hval
+  rw [fit_isoFit_eq (some f) lv true X' y w hX' hw, eq_isoReg, hv']
+  exact ⟨_, _, rfl⟩
+
+omit [ScoreOps K] in
+/-- **the marginal is the best admissible constant** for every score the isotonic fit minimises:
+recalibrating a constant forecast gives the marginal, and recalibration beats every constant -/
+theorem dec_marginal_best_const {f : Functional} {lv : K} {S : K → K → K} {dom : K → Prop}
+    {X y : List K} {w : Option (List K)} {tx ty : List K} (hm : f ≠ .median)
+    (h : isoFit (some f) lv true X y w = .ok (tx, ty)) (hopt : dec_FitOpt f lv S dom y)
+    {marg : K} (hmarg : functionalVal f lv y w = .ok marg) (c : K) (hc : dom c) :
+    total (dec_wS S) (y.zip (dec_wts y w)) (y.map fun _ => marg)
+      ≤ total (dec_wS S) (y.zip (dec_wts y w)) (y.map fun _ => c) := by
+  obtain ⟨tx', ty', h'⟩ := dec_isoFit_ok_transfer h (y.map fun _ => (0 : K)) (by simp)
+  have hconst : ∀ a ∈ y.map (fun _ => (0 : K)), ∀ b ∈ y.map (fun _ => (0 : K)), a = b := by
+    intro a ha b hb
+    obtain ⟨_, _, rfl⟩ := List.mem_map.mp ha
+    obtain ⟨_, _, rfl⟩ := List.mem_map.mp hb
+    rfl
+  have e := dec_recal_const_marginal hm h' hconst hmarg
+  have i := dec_recal_le_const h' hopt c hc
+  rw [e, List.map_map] at i
+  exact i
+
+/-- **`unc` is the smallest average score of an admissible constant forecast** (generic form; the
+call must have at least one column, whose fit provides the positivity of the weights) -/
+theorem dec_unc_best_const (sf : SF K) (f : Functional) (lv : K) (hm : f ≠ .median)
+    (S : K → K → K) (dom : K → Prop) (ys : List K) (w : Option (List K))
+    (hS : ∀ y ∈ ys, ∀ z, dom z → sfPair sf y z = .ok (S y z))
+    (hopt : dec_FitOpt f lv S dom ys) (marg sm : K)
+    (hmarg : functionalVal f lv ys w = .ok marg)
+    (hsm : sfMean sf ys (ys.map fun _ => marg) w = .ok sm) (hmd : dom marg)
+    (x : List K) (row : DecompRow K) (hrow : dec_row sf f lv ys w sm x = .ok row)
+    (c s : K) (hc : dom c) (hs : sfMean sf ys (ys.map fun _ => c) w = .ok s) : sm ≤ s := by
+  obtain ⟨recal, _, _, hrec, _, _, _⟩ := (dec_row_ok sf f lv ys w sm x row).mp hrow
+  obtain ⟨tx, ty, hfit, _⟩ := (dec_recal_ok sf f lv ys w x recal).mp hrec
+  obtain ⟨hX, hw, hne, hpos⟩ := dec_isoFit_ok_data hfit
+  have hW : 0 < (dec_wts ys w).sum := by
+    apply List.sum_pos _ hpos
+    intro he
+    have := dec_wts_length ys w hw
+    rw [he] at this
+    exact hne (List.length_eq_zero_iff.mp this.symm)
+  have pair : ∀ d : K, dom d → ∀ p ∈ ys.zip (ys.map fun _ => d),
+      sfPair sf p.1 p.2 = .ok (S p.1 p.2) := by
+    intro d hd p hp
+    have := List.of_mem_zip (a := p.1) (b := p.2) hp
+    obtain ⟨_, _, e⟩ := List.mem_map.mp this.2
+    rw [← e]
+    exact hS p.1 this.1 d hd
+  have e1 := dec_sfMean_ok sf S ys (ys.map fun _ => marg) w (by simp) (pair marg hmd) hw hne hpos
+  have e2 := dec_sfMean_ok sf S ys (ys.map fun _ => c) w (by simp) (pair c hc) hw hne hpos
+  rw [hsm] at e1
+  rw [hs] at e2
+  rw [Except.ok.inj e1, Except.ok.inj e2]
+  exact div_le_div_of_nonneg_right (dec_marginal_best_const hm hfit hopt hmarg c hc) hW.le
+
+end BestConst
+
+/-! ## E. The library scores at `ℝ` -/
+section RealScores
+
+/-- pinball loss at `ℝ`: the per-pair value -/
+theorem dec_sfPair_pinball (sf : SF ℝ) (hk : sf.kind = .pinball) (he : sf.elem = none)
+    (hα : 0 < sf.α ∧ sf.α < 1) (y z : ℝ) :
+    sfPair sf y z = .ok (((if y ≤ z then (1 : ℝ) else 0) - sf.α) * (z - y)) := by
+  unfold sfPair
+  rw [he, hk]
+  have := cons_scorePair_ok (k := .pinball) (h := sf.h) (α := sf.α) (y := y) (z := z) hα
+  rw [this]
+  show Except.ok (hqsVal 1 sf.α y z) = _
+  rw [cons_hqsVal_one]
+  rfl
+
+theorem dec_validate_pinball (sf : SF ℝ) (hk : sf.kind = .pinball) (he : sf.elem = none)
+    (hα : 0 < sf.α ∧ sf.α < 1) :
+    dec_validate sf none none = .ok (Functional.quantile, sf.α) := by
+  have hf : dec_fn sf none = some .quantile := by simp [dec_fn, sfFunctional, he, hk]
+  have hl : dec_lv sf (some .quantile) none = .ok sf.α := by
+    simp [dec_lv, sfLevel, he, hk]
+    rfl
+  unfold dec_validate
+  rw [hf, hl]
+  have hc : ¬ ((Functional.quantile = .expectile ∨ Functional.quantile = .quantile) ∧
+      (sf.α ≤ 0 ∨ 1 ≤ sf.α)) := by
+    rintro ⟨_, h | h⟩
+    · exact absurd hα.1 (not_lt.mpr h)
+    · exact absurd hα.2 (not_lt.mpr h)
+  show (if _ then _ else _) = _
+  rw [if_neg hc]
+  rfl
+
+/-! ### the homogeneous expectile scores (squared error, Poisson, Gamma deviance included) -/
+
+/-- an identifiable functional with a smaller set of admissible observations -/
+def dec_restrict {K : Type} [Field K] [LinearOrder K] (F : IdFun K) (P : Obs K → Prop) : IdFun K where
+  ok o := F.ok o ∧ P o
+  Vm := F.Vm
+  Vp := F.Vp
+  T := F.T
+  single o ho u := F.single o ho.1 u
+  spec S hne hok u := F.spec S hne (fun o ho => (hok o ho).1) u
+  specm S hne hok u h := F.specm S hne (fun o ho => (hok o ho).1) u h
+
+/-- the admissible observations / predictions of `HomogeneousExpectileScore(degree=h)` -/
+def dec_hesY (h y : ℝ) : Prop := 1 < h ∨ (0 < h ∧ 0 ≤ y) ∨ (h ≤ 0 ∧ 0 < y)
+def dec_hesZ (h z : ℝ) : Prop := 1 < h ∨ 0 < z
+
+theorem dec_hesDom_iff (h y z : ℝ) : hesDom h y z ↔ dec_hesY h y ∧ dec_hesZ h z := by
+  unfold hesDom dec_hesY dec_hesZ
+  split_ifs with h1 h0
+  · simp [h1]
+  · constructor
+    · rintro ⟨a, b⟩; exact ⟨Or.inr (Or.inl ⟨h0, a⟩), Or.inr b⟩
+    · rintro ⟨a | ⟨_, a⟩ | ⟨a, _⟩, b | b⟩
+      all_goals first | exact absurd ‹1 < h› h1 | exact ⟨a, b⟩ | exact absurd h0 (not_lt.mpr a)
+  · constructor
+    · rintro ⟨a, b⟩; exact ⟨Or.inr (Or.inr ⟨not_lt.mp h0, a⟩), Or.inr b⟩
+    · rintro ⟨a | ⟨a, _⟩ | ⟨_, a⟩, b | b⟩
+      all_goals first | exact absurd ‹1 < h› h1 | exact ⟨a, b⟩ | exact absurd a h0
+
+theorem dec_hesZ_up {h a v : ℝ} (ha : dec_hesZ h a) (hav : a ≤ v) : dec_hesZ h v := by
+  rcases ha with h1 | h1
+  · exact Or.inl h1
+  · exact Or.inr (lt_of_lt_of_le h1 hav)
+
+theorem dec_hesZ_dom {h z₁ z₂ : ℝ} (h1 : dec_hesZ h z₁) (h2 : dec_hesZ h z₂) : hesDom h z₁ z₂ := by
+  unfold hesDom
+  split_ifs with a b
+  · rcases h1 with h1 | h1
+    · exact absurd h1 a
+    rcases h2 with h2 | h2
+    · exact absurd h2 a
+    exact ⟨h1.le, h2⟩
+  · rcases h1 with h1 | h1
+    · exact absurd h1 a
+    rcases h2 with h2 | h2
+    · exact absurd h2 a
+    exact ⟨h1, h2⟩
+
+/-- the homogeneous expectile score of degree `h`, level `α`, as an order-sensitive score for the
+`α`-expectile (observations restricted to the score's domain) -/
+noncomputable def dec_hesScore (h α : ℝ) (hα0 : 0 < α) (hα1 : α < 1) :
+    OSScore (dec_restrict (expectileFun α hα0 hα1) (fun o => dec_hesY h o.1)) where
+  S o z := o.2 * hesVal h α o.1 z
+  ψ z := 4 * hesPhi' h z
+  dom z := dec_hesZ h z
+  ψ_mono := by
+    intro a b ha hb hab
+    have := hesPhi'_mono (dec_hesZ_dom ha hb) (dec_hesZ_dom hb ha) hab
+    linarith
+  up := by
+    intro o t c ho ht hc _
+    have hw : 0 < o.2 := ho.1
+    have := cons_hes_os (h := h) o hα0 hα1 ((dec_hesDom_iff h o.1 t).mpr ⟨ho.2, ht⟩)
+      ((dec_hesDom_iff h o.1 c).mpr ⟨ho.2, hc⟩)
+    have k := mul_le_mul_of_nonneg_left this hw.le
+    show o.2 * eWeight α t o * (t - o.1) * (4 * hesPhi' h c - 4 * hesPhi' h t) ≤ _
+    linarith
+  dn := by
+    intro o t c ho ht hc _
+    have hw : 0 < o.2 := ho.1
+    have := cons_hes_os (h := h) o hα0 hα1 ((dec_hesDom_iff h o.1 t).mpr ⟨ho.2, ht⟩)
+      ((dec_hesDom_iff h o.1 c).mpr ⟨ho.2, hc⟩)
+    have k := mul_le_mul_of_nonneg_left this hw.le
+    show o.2 * eWeight α t o * (t - o.1) * (4 * hesPhi' h c - 4 * hesPhi' h t) ≤ _
+    linarith
+
+/-- the same at level `1/2`, for the mean -/
+noncomputable def dec_hesScoreMean (h : ℝ) :
+    OSScore (dec_restrict (meanFun (K := ℝ)) (fun o => dec_hesY h o.1)) where
+  S o z := o.2 * hesVal h (1 / 2) o.1 z
+  ψ z := 2 * hesPhi' h z
+  dom z := dec_hesZ h z
+  ψ_mono := by
+    intro a b ha hb hab
+    have := hesPhi'_mono (dec_hesZ_dom ha hb) (dec_hesZ_dom hb ha) hab
+    linarith
+  up := by
+    intro o t c ho ht hc _
+    have hw : 0 < o.2 := ho.1
+    have := cons_hes_os (h := h) (α := 1 / 2) o (by norm_num) (by norm_num)
+      ((dec_hesDom_iff h o.1 t).mpr ⟨ho.2, ht⟩) ((dec_hesDom_iff h o.1 c).mpr ⟨ho.2, hc⟩)
+    have e : eWeight (1 / 2 : ℝ) t o = 1 / 2 := by unfold eWeight; split_ifs <;> norm_num
+    rw [e] at this
+    have k := mul_le_mul_of_nonneg_left this hw.le
+    show o.2 * (t - o.1) * (2 * hesPhi' h c - 2 * hesPhi' h t) ≤ _
+    linarith
+  dn := by
+    intro o t c ho ht hc _
+    have hw : 0 < o.2 := ho.1
+    have := cons_hes_os (h := h) (α := 1 / 2) o (by norm_num) (by norm_num)
+      ((dec_hesDom_iff h o.1 t).mpr ⟨ho.2, ht⟩) ((dec_hesDom_iff h o.1 c).mpr ⟨ho.2, hc⟩)
+    have e : eWeight (1 / 2 : ℝ) t o = 1 / 2 := by unfold eWeight; split_ifs <;> norm_num
+    rw [e] at this
+    have k := mul_le_mul_of_nonneg_left this hw.le
+    show o.2 * (t - o.1) * (2 * hesPhi' h c - 2 * hesPhi' h t) ≤ _
+    linarith
+
+/-- **every homogeneous expectile score is minimised by the expectile fit** … -/
+theorem dec_fitOpt_hes (h α : ℝ) (hα0 : 0 < α) (hα1 : α < 1) (ys : List ℝ)
+    (hY : ∀ y ∈ ys, dec_hesY h y) (hZ : ∀ v, (∃ a ∈ ys, a ≤ v) → dec_hesZ h v) :
+    dec_FitOpt .expectile α (hesVal h α) (dec_hesZ h) ys :=
+  dec_fitOpt_of_gpava (dec_hesScore h α hα0 hα1) (dec_gpavaFit_expectile α hα0 hα1) _
+    (fun _ _ => rfl) ys (fun y hy _ hv => ⟨hv, hY y hy⟩) hZ
+
+/-- … and at level `1/2` by the mean fit -/
+theorem dec_fitOpt_hes_mean (h lv : ℝ) (ys : List ℝ)
+    (hY : ∀ y ∈ ys, dec_hesY h y) (hZ : ∀ v, (∃ a ∈ ys, a ≤ v) → dec_hesZ h v) :
+    dec_FitOpt .mean lv (hesVal h (1 / 2)) (dec_hesZ h) ys :=
+  dec_fitOpt_of_gpava (dec_hesScoreMean h) (dec_gpavaFit_mean lv) _
+    (fun _ _ => rfl) ys (fun y hy _ hv => ⟨hv, hY y hy⟩) hZ
+
+/-- `sf` is one of the four expectile-type score classes, with effective degree `h`, level `α` -/
+def dec_IsHES (sf : SF ℝ) (h α : ℝ) : Prop :=
+  sf.elem = none ∧
+    ((sf.kind = .hes ∧ h = sf.h ∧ α = sf.α ∧ 0 < sf.α ∧ sf.α < 1) ∨
+     (sf.kind = .squaredError ∧ h = 2 ∧ α = 1 / 2) ∨
+     (sf.kind = .poisson ∧ h = 1 ∧ α = 1 / 2) ∨ (sf.kind = .gamma ∧ h = 0 ∧ α = 1 / 2))
+
+theorem dec_IsHES_level {sf : SF ℝ} {h α : ℝ} (hs : dec_IsHES sf h α) : 0 < α ∧ α < 1 := by
+  rcases hs.2 with ⟨_, _, rfl, h0, h1⟩ | ⟨_, _, rfl⟩ | ⟨_, _, rfl⟩ | ⟨_, _, rfl⟩
+  · exact ⟨h0, h1⟩
+  all_goals norm_num
+
+/-- the per-pair value of an expectile-type score: `hesVal` on `hesDom`, `ValueError` outside -/
+theorem dec_sfPair_hes {sf : SF ℝ} {h α : ℝ} (hs : dec_IsHES sf h α) (y z : ℝ) :
+    (hesDom h y z → sfPair sf y z = .ok (hesVal h α y z)) ∧
+    (¬ hesDom h y z → sfPair sf y z = .error .valueError) := by
+  obtain ⟨he, hk⟩ := hs
+  unfold sfPair
+  rw [he]
+  simp only
+  rcases hk with ⟨hk, rfl, rfl, h0, h1⟩ | ⟨hk, rfl, rfl⟩ | ⟨hk, rfl, rfl⟩ | ⟨hk, rfl, rfl⟩
+  · rw [hk]
+    show (hesDom _ y z → (if levelOk sf.α then hes sf.h sf.α y z else throw Err.valueError) = _) ∧
+      (¬ hesDom _ y z → (if levelOk sf.α then hes sf.h sf.α y z else throw Err.valueError) = _)
+    rw [if_pos (show levelOk sf.α from ⟨h0, h1⟩)]
+    exact ⟨fun d => cons_hes_ok d, fun d => hes_error d⟩
+  · rw [hk]
+    show (hesDom _ y z → hes two half y z = _) ∧ (¬ hesDom _ y z → hes two half y z = _)
+    rw [two_real, half_real]
+    exact ⟨fun d => cons_hes_ok d, fun d => hes_error d⟩
+  · rw [hk]
+    show (hesDom _ y z → hes 1 half y z = _) ∧ (¬ hesDom _ y z → hes 1 half y z = _)
+    rw [half_real]
+    exact ⟨fun d => cons_hes_ok d, fun d => hes_error d⟩
+  · rw [hk]
+    show (hesDom _ y z → hes 0 half y z = _) ∧ (¬ hesDom _ y z → hes 0 half y z = _)
+    rw [half_real]
+    exact ⟨fun d => cons_hes_ok d, fun d => hes_error d⟩
+
+/-- the inferred functional and level of an expectile-type score -/
+theorem dec_validate_hes {sf : SF ℝ} {h α : ℝ} (hs : dec_IsHES sf h α) :
+    dec_validate sf none none
+      = .ok (if α = 1 / 2 then (Functional.mean, (1 / 2 : ℝ)) else (Functional.expectile, α)) := by
+  obtain ⟨he, hk⟩ := hs
+  have hmean : ∀ (hf : dec_fn sf none = some .mean),
+      dec_validate sf none none = .ok (Functional.mean, (1 / 2 : ℝ)) := by
+    intro hf
+    unfold dec_validate
+    rw [hf]
+    have : dec_lv sf (some .mean) none = .ok (1 / 2 : ℝ) := by
+      simp [dec_lv]
+      rfl
+    rw [this]
+    rfl
+  rcases hk with ⟨hk, rfl, rfl, h0, h1⟩ | ⟨hk, rfl, rfl⟩ | ⟨hk, rfl, rfl⟩ | ⟨hk, rfl, rfl⟩
+  · by_cases ha : sf.α = 1 / 2
+    · rw [if_pos ha]
+      apply hmean
+      simp [dec_fn, sfFunctional, he, hk, ha]
+    · rw [if_neg ha]
+      have hf : dec_fn sf none = some .expectile := by
+        have ha' : ¬ sf.α = 2⁻¹ := by rw [← one_div]; exact ha
+        simp [dec_fn, sfFunctional, he, hk, ha']
+      have hl : dec_lv sf (some .expectile) none = .ok sf.α := by
+        simp [dec_lv, sfLevel, he, hk]
+        rfl
+      unfold dec_validate
+      rw [hf, hl]
+      have hc : ¬ ((Functional.expectile = .expectile ∨ Functional.expectile = .quantile) ∧
+          (sf.α ≤ 0 ∨ 1 ≤ sf.α)) := by
+        rintro ⟨_, h | h⟩
+        · exact absurd h0 (not_lt.mpr h)
+        · exact absurd h1 (not_lt.mpr h)
+      show (if _ then _ else _) = _
+      rw [if_neg hc]
+      rfl
+  · rw [if_pos rfl]; apply hmean; simp [dec_fn, sfFunctional, he, hk]
+  · rw [if_pos rfl]; apply hmean; simp [dec_fn, sfFunctional, he, hk]
+  · rw [if_pos rfl]; apply hmean; simp [dec_fn, sfFunctional, he, hk]
+
+/-- the marginal mean / expectile is not below the smallest observation -/
+theorem dec_marginal_ge {f : Functional} {lv : ℝ} (hf : f = .mean ∨ (f = .expectile ∧ 0 < lv ∧ lv < 1))
+    {ys : List ℝ} {w : Option (List ℝ)} {marg : ℝ}
+    (hw : ∀ w', w = some w' → w'.length = ys.length) (hne : ys ≠ [])
+    (hpos : ∀ v ∈ dec_wts ys w, 0 < v) (h : functionalVal f lv ys w = .ok marg) :
+    ∃ a ∈ ys, a ≤ marg := by
+  have hq : f ≠ .mean → f ≠ .expectile → w = none := by
+    intro a b
+    rcases hf with rfl | ⟨rfl, _⟩
+    · exact absurd rfl a
+    · exact absurd rfl b
+  have hm := dec_functionalVal_eq hq hw hne hpos h
+  have hdne : ys.zip (dec_wts ys w) ≠ [] := by
+    intro he
+    have hl := congrArg List.length he
+    rw [zip_length_of_eq (dec_wts_length ys w hw)] at hl
+    exact hne (List.length_eq_zero_iff.mp hl)
+  have hdpos : ∀ o ∈ ys.zip (dec_wts ys w), 0 < o.2 := fun o ho =>
+    hpos _ (List.of_mem_zip (a := o.1) (b := o.2) ho).2
+  rcases hf with rfl | ⟨rfl, h0, h1⟩
+  · obtain ⟨⟨o, ho, hle⟩, _⟩ := internal_between (meanFun (K := ℝ)).internal _ hdne hdpos
+    exact ⟨o.1, (List.of_mem_zip (a := o.1) (b := o.2) ho).1, by rw [hm]; exact hle⟩
+  · obtain ⟨⟨o, ho, hle⟩, _⟩ := internal_between (expectileFun lv h0 h1).internal _ hdne hdpos
+    exact ⟨o.1, (List.of_mem_zip (a := o.1) (b := o.2) ho).1, by rw [hm]; exact hle⟩
+
+/-- **Expectile-type scores at `ℝ`: `mcb ≥ 0` and `dsc ≥ 0`** whenever `min y` is an admissible
+prediction (the model's `yminAllowed` flag) -/
+theorem dec_hes_signs {sf : SF ℝ} {h α : ℝ} (hs : dec_IsHES sf h α) (ys : List ℝ)
+    (cols : List (List ℝ)) (w : Option (List ℝ)) (rows : List (DecompRow ℝ))
+    (hd : decompose sf none none ys cols w = .ok rows)
+    (hallowed : dec_yminAllowed sf ys w = true) : ∀ r ∈ rows, 0 ≤ r.mcb ∧ 0 ≤ r.dsc := by
+  obtain ⟨hα0, hα1⟩ := dec_IsHES_level hs
+  obtain ⟨f, lv', marg, sm, hv, hsh, hm, hrows⟩ := (dec_ok_iff sf none none ys cols w rows).mp hd
+  obtain ⟨hm1, hm2⟩ := dec_marginal_ok hm
+  obtain ⟨_, _, hne⟩ := (dec_shape_ok ys cols w).mp hsh
+  rw [dec_validate_hes hs] at hv
+  intro r hr
+  obtain ⟨x, hx, hrow⟩ := dec_mapM_mem hrows hr
+  obtain ⟨recal, score, sR, hrec, hsc, _, _⟩ := (dec_row_ok sf f lv' ys w sm x r).mp hrow
+  obtain ⟨tx, ty, hfit, _⟩ := dec_recal_ok_allowed hallowed hrec
+  obtain ⟨hX, hw, _, hpos⟩ := dec_isoFit_ok_data hfit
+  -- all pairs `(y_i, x_i)` are in the domain
+  obtain ⟨_, _, hpairs, _⟩ := dec_sfMean_val hsc
+  have hdom : ∀ p ∈ ys.zip x, hesDom h p.1 p.2 := by
+    intro p hp
+    obtain ⟨v, hv'⟩ := hpairs p hp
+    by_contra hn
+    rw [(dec_sfPair_hes hs p.1 p.2).2 hn] at hv'
+    cases hv'
+  have hY : ∀ y ∈ ys, dec_hesY h y := by
+    intro y hy
+    obtain ⟨i, hi, rfl⟩ := List.getElem_of_mem hy
+    have : (ys[i], x[i]'(by omega)) ∈ ys.zip x := by
+      rw [List.mem_iff_getElem]
+      exact ⟨i, by simp; omega, by simp⟩
+    exact ((dec_hesDom_iff h _ _).mp (hdom _ this)).1
+  have hxz : ∀ z ∈ x, dec_hesZ h z := by
+    intro z hz
+    obtain ⟨i, hi, rfl⟩ := List.getElem_of_mem hz
+    have : (ys[i]'(by omega), x[i]) ∈ ys.zip x := by
+      rw [List.mem_iff_getElem]
+      exact ⟨i, by simp; omega, by simp⟩
+    exact ((dec_hesDom_iff h _ _).mp (hdom _ this)).2
+  -- `min y` is an admissible prediction
+  have hymin : dec_hesZ h (ys.foldl min ys[0]!) := by
+    obtain ⟨v, hv'⟩ := (dec_sfPair_spec sf _ _).1 ((dec_yminAllowed_iff sf ys w).mp hallowed)
+    have : hesDom h ys[0]! (ys.foldl min ys[0]!) := by
+      by_contra hn
+      rw [(dec_sfPair_hes hs _ _).2 hn] at hv'
+      cases hv'
+    exact ((dec_hesDom_iff h _ _).mp this).2
+  have hZ : ∀ v, (∃ a ∈ ys, a ≤ v) → dec_hesZ h v := by
+    rintro v ⟨a, ha, hav⟩
+    exact dec_hesZ_up hymin (le_trans ((dec_lmin_spec ys hne).2 a ha) hav)
+  have hS : ∀ y ∈ ys, ∀ z, dec_hesZ h z → sfPair sf y z = .ok (hesVal h α y z) :=
+    fun y hy z hz => (dec_sfPair_hes hs y z).1 ((dec_hesDom_iff h y z).mpr ⟨hY y hy, hz⟩)
+  by_cases ha : α = 1 / 2
+  · rw [if_pos ha] at hv
+    obtain ⟨rfl, rfl⟩ := Prod.mk.inj (Except.ok.inj hv)
+    subst ha
+    exact dec_row_signs sf .mean _ (hesVal h (1 / 2)) (dec_hesZ h) ys w hS
+      (dec_fitOpt_hes_mean h _ ys hY hZ) hZ hallowed marg sm hm2
+      (hZ _ (dec_marginal_ge (Or.inl rfl) hw hne hpos hm1)) x hxz r hrow
+  · rw [if_neg ha] at hv
+    obtain ⟨rfl, rfl⟩ := Prod.mk.inj (Except.ok.inj hv)
+    exact dec_row_signs sf .expectile _ (hesVal h α) (dec_hesZ h) ys w hS
+      (dec_fitOpt_hes h α hα0 hα1 ys hY hZ) hZ hallowed marg sm hm2
+      (hZ _ (dec_marginal_ge (Or.inr ⟨rfl, hα0, hα1⟩) hw hne hpos hm1)) x hxz r hrow
+
+end RealScores
+
+section RealHES2
+
+/-- the effective functional and level of an expectile-type score -/
+noncomputable def dec_hesFn (α : ℝ) : Functional × ℝ :=
+  if α = 1 / 2 then (Functional.mean, (1 / 2 : ℝ)) else (Functional.expectile, α)
+
+/-- what a scored forecast column and the flag `yminAllowed` say about the data -/
+theorem dec_hes_setting {sf : SF ℝ} {h α : ℝ} (hs : dec_IsHES sf h α) {ys : List ℝ}
+    {w : Option (List ℝ)} (hallowed : dec_yminAllowed sf ys w = true) (hne : ys ≠ [])
+    {x : List ℝ} {s : ℝ} (hsc : sfMean sf ys x w = .ok s) :
+    (∀ y ∈ ys, dec_hesY h y) ∧ (∀ z ∈ x, dec_hesZ h z) ∧
+    (∀ v, (∃ a ∈ ys, a ≤ v) → dec_hesZ h v) ∧
+    (∀ y ∈ ys, ∀ z, dec_hesZ h z → sfPair sf y z = .ok (hesVal h α y z)) := by
+  obtain ⟨hX, _, hpairs, _⟩ := dec_sfMean_val hsc
+  have hdom : ∀ p ∈ ys.zip x, hesDom h p.1 p.2 := by
+    intro p hp
+    obtain ⟨v, hv'⟩ := hpairs p hp
+    by_contra hn
+    rw [(dec_sfPair_hes hs p.1 p.2).2 hn] at hv'
+    cases hv'
+  have hY : ∀ y ∈ ys, dec_hesY h y := by
+    intro y hy
+    obtain ⟨i, hi, rfl⟩ := List.getElem_of_mem hy
+    have : (ys[i], x[i]'(by omega)) ∈ ys.zip x := by
+      rw [List.mem_iff_getElem]
+      exact ⟨i, by simp; omega, by simp⟩
+    exact ((dec_hesDom_iff h _ _).mp (hdom _ this)).1
+  have hxz : ∀ z ∈ x, dec_hesZ h z := by
+    intro z hz
+    obtain ⟨i, hi, rfl⟩ := List.getElem_of_mem hz
+    have : (ys[i]'(by omega), x[i]) ∈ ys.zip x := by
+      rw [List.mem_iff_getElem]
+      exact ⟨i, by simp; omega, by simp⟩
+    exact ((dec_hesDom_iff h _ _).mp (hdom _ this)).2
+  have hymin : dec_hesZ h (ys.foldl min ys[0]!) := by
+    obtain ⟨v, hv'⟩ := (dec_sfPair_spec sf _ _).1 ((dec_yminAllowed_iff sf ys w).mp hallowed)
+    have : hesDom h ys[0]! (ys.foldl min ys[0]!) := by
+      by_contra hn
+      rw [(dec_sfPair_hes hs _ _).2 hn] at hv'
+      cases hv'
+    exact ((dec_hesDom_iff h _ _).mp this).2
+  refine ⟨hY, hxz, ?_, ?_⟩
+  · rintro v ⟨a, ha, hav⟩
+    exact dec_hesZ_up hymin (le_trans ((dec_lmin_spec ys hne).2 a ha) hav)
+  · exact fun y hy z hz => (dec_sfPair_hes hs y z).1 ((dec_hesDom_iff h y z).mpr ⟨hY y hy, hz⟩)
+
+/-- the isotonic fit of the effective functional minimises the score -/
+theorem dec_fitOpt_hes_eff (h α : ℝ) (hα0 : 0 < α) (hα1 : α < 1) (ys : List ℝ)
+    (hY : ∀ y ∈ ys, dec_hesY h y) (hZ : ∀ v, (∃ a ∈ ys, a ≤ v) → dec_hesZ h v) :
+    dec_FitOpt (dec_hesFn α).1 (dec_hesFn α).2 (hesVal h α) (dec_hesZ h) ys := by
+  unfold dec_hesFn
+  by_cases ha : α = 1 / 2
+  · rw [if_pos ha]
+    subst ha
+    exact dec_fitOpt_hes_mean h _ ys hY hZ
+  · rw [if_neg ha]
+    exact dec_fitOpt_hes h α hα0 hα1 ys hY hZ
+
+theorem dec_hesFn_cases (α : ℝ) (hα0 : 0 < α) (hα1 : α < 1) :
+    (dec_hesFn α).1 ≠ .median ∧
+    ((dec_hesFn α).1 = .mean ∨
+      ((dec_hesFn α).1 = .expectile ∧ 0 < (dec_hesFn α).2 ∧ (dec_hesFn α).2 < 1)) := by
+  unfold dec_hesFn
+  by_cases ha : α = 1 / 2
+  · rw [if_pos ha]; exact ⟨by decide, Or.inl rfl⟩
+  · rw [if_neg ha]; exact ⟨by simp, Or.inr ⟨rfl, hα0, hα1⟩⟩
+
+/-- **Expectile-type scores at `ℝ`: `mcb = 0` for recalibrated forecasts and `unc` is the best
+admissible constant score** -/
+theorem dec_hes_zero_and_best {sf : SF ℝ} {h α : ℝ} (hs : dec_IsHES sf h α) (ys : List ℝ)
+    (cols : List (List ℝ)) (w : Option (List ℝ)) (rows : List (DecompRow ℝ))
+    (hd : decompose sf none none ys cols w = .ok rows)
+    (hallowed : dec_yminAllowed sf ys w = true) :
+    (∀ i (hi : i < cols.length) (hr : i < rows.length) (X₀ tx₀ ty₀ : List ℝ),
+      isoFit (some (dec_hesFn α).1) (dec_hesFn α).2 true X₀ ys w = .ok (tx₀, ty₀) →
+      cols[i] = X₀.map (interp tx₀ ty₀) → rows[i].mcb = 0) ∧
+    (∀ c s, dec_hesZ h c → sfMean sf ys (ys.map fun _ => c) w = .ok s → ∀ r ∈ rows, r.unc ≤ s) := by
+  obtain ⟨hα0, hα1⟩ := dec_IsHES_level hs
+  obtain ⟨f, lv', marg, sm, hv, hsh, hm, hrows⟩ := (dec_ok_iff sf none none ys cols w rows).mp hd
+  obtain ⟨hm1, hm2⟩ := dec_marginal_ok hm
+  obtain ⟨_, _, hne⟩ := (dec_shape_ok ys cols w).mp hsh
+  rw [dec_validate_hes hs] at hv
+  have hfl : (f, lv') = dec_hesFn α := (Except.ok.inj hv).symm
+  obtain ⟨rfl, rfl⟩ := Prod.mk.inj hfl
+  obtain ⟨hmed, hcase⟩ := dec_hesFn_cases α hα0 hα1
+  constructor
+  · intro i hi hr X₀ tx₀ ty₀ h₀ hx
+    have hrow := dec_mapM_get hrows i hi hr
+    obtain ⟨_, score, _, _, hsc, _, _⟩ := (dec_row_ok sf _ _ ys w sm cols[i] rows[i]).mp hrow
+    obtain ⟨hY, _, hZ, hS⟩ := dec_hes_setting hs hallowed hne hsc
+    rw [hx] at hrow
+    exact dec_row_mcb_zero sf _ _ (hesVal h α) (dec_hesZ h) ys w hS
+      (dec_fitOpt_hes_eff h α hα0 hα1 ys hY hZ) hZ hallowed sm X₀ tx₀ ty₀ h₀ rows[i] hrow
+  · intro c s hc hs' r hr
+    obtain ⟨x, hx, hrow⟩ := dec_mapM_mem hrows hr
+    obtain ⟨recal, score, _, hrec, hsc, _, he⟩ := (dec_row_ok sf _ _ ys w sm x r).mp hrow
+    obtain ⟨hY, _, hZ, hS⟩ := dec_hes_setting hs hallowed hne hsc
+    obtain ⟨tx, ty, hfit, _⟩ := (dec_recal_ok sf _ _ ys w x recal).mp hrec
+    obtain ⟨_, hw, _, hpos⟩ := dec_isoFit_ok_data hfit
+    have hmd : dec_hesZ h marg := hZ _ (dec_marginal_ge hcase hw hne hpos hm1)
+    rw [he]
+    exact dec_unc_best_const sf _ _ hmed (hesVal h α) (dec_hesZ h) ys w hS
+      (dec_fitOpt_hes_eff h α hα0 hα1 ys hY hZ) marg sm hm1 hm2 hmd x r hrow c s hc hs'
+
+end RealHES2
+
+/-! ### the quantile fit minimises every order-sensitive score of the quantile -/
+
+section QuantGeneral
+variable {K : Type} [Field K] [LinearOrder K] [IsStrictOrderedRing K]
+
+/-- an order-sensitive score of the (restricted) lower quantile is constant on the quantile
+interval `[qLower, qUpper]` of a block -/
+theorem dec_quant_flat (α : K) (hα0 : 0 < α) (hα1 : α < 1) (P : Obs K → Prop)
+    (Sc : OSScore (dec_restrict (quantFun α hα0 hα1) P)) (d : List (Obs K)) (hne : d ≠ [])
+    (hP : ∀ o ∈ d, P o) (c : K) (h1 : qLower α d ≤ c) (h2 : c ≤ qUpper α d)
+    (hdq : Sc.dom (qLower α d)) (hdc : Sc.dom c) :
+    (d.map (Sc.S · c)).sum = (d.map (Sc.S · (qLower α d))).sum := by
+  have hok : ∀ o ∈ d, (dec_restrict (quantFun α hα0 hα1) P).ok o := fun o ho => ⟨trivial, hP o ho⟩
+  have hψ := Sc.ψ_mono _ _ hdq hdc h1
+  -- moving right from `qLower` to `c`
+  have hu := sum_map_le_sum_map
+    (fun o => ((if o.1 ≤ qLower α d then (1:K) else 0) - α) * (Sc.ψ c - Sc.ψ (qLower α d)))
+    (fun o => Sc.S o c - Sc.S o (qLower α d)) d
+    (fun o ho => Sc.up o (qLower α d) c (hok o ho) hdq hdc h1)
+  rw [sum_map_mul_const, sum_map_sub' (fun o => Sc.S o c) (fun o => Sc.S o (qLower α d))] at hu
+  have eu := Esum_quant α d (qLower α d)
+  simp only [Esum] at eu
+  rw [eu] at hu
+  -- moving left from `c` to `qLower`
+  have hd := sum_map_le_sum_map
+    (fun o => ((if o.1 < c then (1:K) else 0) - α) * (Sc.ψ (qLower α d) - Sc.ψ c))
+    (fun o => Sc.S o (qLower α d) - Sc.S o c) d
+    (fun o ho => Sc.dn o c (qLower α d) (hok o ho) hdc hdq h1)
+  rw [sum_map_mul_const, sum_map_sub' (fun o => Sc.S o (qLower α d)) (fun o => Sc.S o c)] at hd
+  have ed := Esum_quant_m α d c
+  simp only [Esum] at ed
+  rw [ed] at hd
+  have ha := qLower_cnt α hα1 d hne
+  have hc := cntLt_le_of_le_qUpper α hα0 d hne c h2
+  have p1 : 0 ≤ ((cntLe d (qLower α d) : K) - α * (d.length : K)) * (Sc.ψ c - Sc.ψ (qLower α d)) :=
+    mul_nonneg (by linarith) (by linarith)
+  have p2 : 0 ≤ ((cntLt d c : K) - α * (d.length : K)) * (Sc.ψ (qLower α d) - Sc.ψ c) :=
+    mul_nonneg_of_nonpos_of_nonpos (by linarith) (by linarith)
+  apply le_antisymm <;> linarith
+
+/-- **the quantile fit (mid-quantiles of the lower-quantile PAVA blocks) minimises every
+order-sensitive score of the quantile** over the non-decreasing admissible sequences -/
+theorem dec_quantileFit_optimal (α : K) (hα0 : 0 < α) (hα1 : α < 1) (P : Obs K → Prop)
+    (Sc : OSScore (dec_restrict (quantFun α hα0 hα1) P)) (ys : List (Obs K))
+    (hP : ∀ o ∈ ys, P o) (hdom : ∀ v, (∃ o ∈ ys, o.1 ≤ v) → Sc.dom v)
+    (zs : List K) (hlen : ys.length = zs.length) (hzd : ∀ z ∈ zs, Sc.dom z)
+    (hsort : zs.Pairwise (· ≤ ·)) :
+    total Sc.S ys (quantileFit α ys).1 ≤ total Sc.S ys zs := by
+  obtain ⟨hg, hs, hflat⟩ := gpava_quant_spec α hα0 hα1 ys
+  obtain ⟨_, hf⟩ := qMids_spec α hα0 hα1 _ hg hs
+  have hsub : ∀ b ∈ gpava (qLower α) ys, ∀ o ∈ b.data, o ∈ ys := by
+    intro b hb o ho
+    rw [← hflat]
+    exact List.mem_flatMap.mpr ⟨b, hb, ho⟩
+  have hdl : ∀ b ∈ gpava (qLower α) ys, Sc.dom (qLower α b.data) := by
+    intro b hb
+    obtain ⟨o, ho, he⟩ := List.mem_map.mp (qLower_mem α hα1 b.data (hg b hb).1)
+    exact hdom _ ⟨o, hsub b hb o ho, by rw [he]⟩
+  have hfl : List.Forall₂ (fun b m => (b.data.map (Sc.S · m)).sum
+      = (b.data.map (Sc.S · b.val)).sum)
+      (gpava (qLower α) ys) (qMids α (gpava (qLower α) ys)) :=
+    forall₂_imp_mem hf (fun b hb m h => by
+      rw [(hg b hb).2]
+      refine dec_quant_flat α hα0 hα1 P Sc b.data (hg b hb).1
+        (fun o ho => hP o (hsub b hb o ho)) m h.1 h.2 (hdl b hb) ?_
+      obtain ⟨o, ho, he⟩ := List.mem_map.mp (qLower_mem α hα1 b.data (hg b hb).1)
+      exact hdom _ ⟨o, hsub b hb o ho, by rw [he]; exact h.1⟩)
+  have key := total_bexp_eq Sc.S hfl
+  rw [hflat] at key
+  rw [quantileFit_fst, key]
+  refine fit_optimal Sc ys (fun o ho => ⟨trivial, hP o ho⟩) ?_ zs hlen hzd hsort
+  intro b hb
+  have hb' : b ∈ gpava (qLower α) ys := hb
+  rw [(hg b hb').2]
+  exact hdl b hb'
+
+end QuantGeneral
+
+section QuantOpt
+variable {K : Type} [Field K] [LinearOrder K] [IsStrictOrderedRing K]
+
+/-- **generic instance of `dec_FitOpt` for the quantile** -/
+theorem dec_fitOpt_of_quantile (α : K) (hα0 : 0 < α) (hα1 : α < 1) (P : Obs K → Prop)
+    (Sc : OSScore (dec_restrict (quantFun α hα0 hα1) P)) (S : K → K → K)
+    (hS : ∀ o z, Sc.S o z = S o.1 z) (ys : List K) (hP : ∀ y ∈ ys, ∀ v, P (y, v))
+    (hdom : ∀ v, (∃ a ∈ ys, a ≤ v) → Sc.dom v) : dec_FitOpt .quantile α S Sc.dom ys := by
+  intro y wopt yiso r hr hmem zs hz hs hzd
+  cases wopt with
+  | some wl =>
+    rw [isoReg_quantile_weighted α hα0 hα1] at hr
+    cases hr
+  | none =>
+    have hne : y ≠ [] := by
+      obtain ⟨v, hv, _, _⟩ := isoReg_inv hr
+      exact (eqValidate_ok hv).1
+    have hx := isoReg_quantile_x hα0 hα1 hne hr
+    simp only [orient_true] at hx
+    have hone : ∀ zs' : List K,
+        total (dec_wS S) (y.zip (dec_wts y none)) zs' = total Sc.S (y.zip (dec_wts y none)) zs' := by
+      intro zs'
+      apply dec_total_congr
+      intro o ho z
+      have h2 : o.2 ∈ dec_wts y none := (List.of_mem_zip (a := o.1) (b := o.2) ho).2
+      obtain ⟨_, _, h1⟩ := List.mem_map.mp h2
+      show o.2 * _ = _
+      rw [← h1, one_mul, hS]
+    rw [hone, hone, hx]
+    refine dec_quantileFit_optimal α hα0 hα1 P Sc _ ?_ ?_ zs
+      (by rw [zip_length_of_eq (by simp [dec_wts]), hz]) hzd hs
+    · intro o ho
+      have := hP o.1 (hmem _ (List.of_mem_zip (a := o.1) (b := o.2) ho).1) o.2
+      exact this
+    · rintro v ⟨o, ho, hle⟩
+      exact hdom v ⟨o.1, hmem _ (List.of_mem_zip (a := o.1) (b := o.2) ho).1, hle⟩
+
+end QuantOpt
+section RealHQS
+
+/-- the homogeneous quantile score of degree `h`, level `α`, as an order-sensitive score for the
+`α`-quantile (observations restricted to the score's domain) -/
+noncomputable def dec_hqsScore (h α : ℝ) (hα0 : 0 < α) (hα1 : α < 1) :
+    OSScore (dec_restrict (quantFun α hα0 hα1) (fun o => gDom h o.1)) where
+  S o z := hqsVal h α o.1 z
+  ψ z := gfun h z
+  dom z := gDom h z
+  ψ_mono := by
+    intro a b ha hb hab
+    exact gfun_le ((hqsDom_iff h a b).mpr ⟨ha, hb⟩) hab
+  up := by
+    intro o t c ho ht hc htc
+    exact cons_hqs_up ((hqsDom_iff h o.1 t).mpr ⟨ho.2, ht⟩) ((hqsDom_iff h o.1 c).mpr ⟨ho.2, hc⟩) htc
+  dn := by
+    intro o t c ho ht hc hct
+    exact cons_hqs_dn ((hqsDom_iff h o.1 t).mpr ⟨ho.2, ht⟩) ((hqsDom_iff h o.1 c).mpr ⟨ho.2, hc⟩) hct
+
+theorem dec_gDom_up {h a v : ℝ} (ha : gDom h a) (hav : a ≤ v) : gDom h v := by
+  rcases ha with h1 | h1 | h1
+  · exact Or.inl h1
+  · exact Or.inr (Or.inl h1)
+  · exact Or.inr (Or.inr (lt_of_lt_of_le h1 hav))
+
+/-- **every homogeneous quantile score is minimised by the quantile fit** -/
+theorem dec_fitOpt_hqs (h α : ℝ) (hα0 : 0 < α) (hα1 : α < 1) (ys : List ℝ)
+    (hY : ∀ y ∈ ys, gDom h y) (hZ : ∀ v, (∃ a ∈ ys, a ≤ v) → gDom h v) :
+    dec_FitOpt .quantile α (hqsVal h α) (gDom h) ys :=
+  dec_fitOpt_of_quantile α hα0 hα1 _ (dec_hqsScore h α hα0 hα1) _ (fun _ _ => rfl) ys
+    (fun y hy _ => hY y hy) hZ
+
+/-- `sf` is `HomogeneousQuantileScore(degree=h, level=α)` or `PinballLoss(level=α)` (`h = 1`) -/
+def dec_IsHQS (sf : SF ℝ) (h α : ℝ) : Prop :=
+  sf.elem = none ∧ α = sf.α ∧ 0 < sf.α ∧ sf.α < 1 ∧
+    ((sf.kind = .hqs ∧ h = sf.h) ∨ (sf.kind = .pinball ∧ h = 1))
+
+theorem dec_sfPair_hqs {sf : SF ℝ} {h α : ℝ} (hs : dec_IsHQS sf h α) (y z : ℝ) :
+    (hqsDom h y z → sfPair sf y z = .ok (hqsVal h α y z)) ∧
+    (¬ hqsDom h y z → sfPair sf y z = .error .valueError) := by
+  obtain ⟨he, rfl, h0, h1, hk⟩ := hs
+  unfold sfPair
+  rw [he]
+  simp only
+  rcases hk with ⟨hk, rfl⟩ | ⟨hk, rfl⟩
+  · rw [hk]
+    show (hqsDom _ y z → (if levelOk sf.α then hqs sf.h sf.α y z else throw Err.valueError) = _) ∧
+      (¬ hqsDom _ y z → (if levelOk sf.α then hqs sf.h sf.α y z else throw Err.valueError) = _)
+    rw [if_pos (show levelOk sf.α from ⟨h0, h1⟩)]
+    exact ⟨fun d => hqs_closed' d, fun d => hqs_err d⟩
+  · rw [hk]
+    show (hqsDom _ y z → (if levelOk sf.α then hqs 1 sf.α y z else throw Err.valueError) = _) ∧
+      (¬ hqsDom _ y z → (if levelOk sf.α then hqs 1 sf.α y z else throw Err.valueError) = _)
+    rw [if_pos (show levelOk sf.α from ⟨h0, h1⟩)]
+    exact ⟨fun d => hqs_closed' d, fun d => hqs_err d⟩
+
+theorem dec_validate_hqs {sf : SF ℝ} {h α : ℝ} (hs : dec_IsHQS sf h α) :
+    dec_validate sf none none = .ok (Functional.quantile, α) := by
+  obtain ⟨he, rfl, h0, h1, hk⟩ := hs
+  have hf : dec_fn sf none = some .quantile := by
+    rcases hk with ⟨hk, _⟩ | ⟨hk, _⟩ <;> simp [dec_fn, sfFunctional, he, hk]
+  have hl : dec_lv sf (some .quantile) none = .ok sf.α := by
+    rcases hk with ⟨hk, _⟩ | ⟨hk, _⟩ <;> simp [dec_lv, sfLevel, he, hk] <;> rfl
+  unfold dec_validate
+  rw [hf, hl]
+  have hc : ¬ ((Functional.quantile = .expectile ∨ Functional.quantile = .quantile) ∧
+      (sf.α ≤ 0 ∨ 1 ≤ sf.α)) := by
+    rintro ⟨_, h | h⟩
+    · exact absurd h0 (not_lt.mpr h)
+    · exact absurd h1 (not_lt.mpr h)
+  show (if _ then _ else _) = _
+  rw [if_neg hc]
+  rfl
+
+/-- what a scored forecast column and the flag `yminAllowed` say about the data -/
+theorem dec_hqs_setting {sf : SF ℝ} {h α : ℝ} (hs : dec_IsHQS sf h α) {ys : List ℝ}
+    {w : Option (List ℝ)} (hallowed : dec_yminAllowed sf ys w = true) (hne : ys ≠ [])
+    {x : List ℝ} {s : ℝ} (hsc : sfMean sf ys x w = .ok s) :
+    (∀ y ∈ ys, gDom h y) ∧ (∀ z ∈ x, gDom h z) ∧
+    (∀ v, (∃ a ∈ ys, a ≤ v) → gDom h v) ∧
+    (∀ y ∈ ys, ∀ z, gDom h z → sfPair sf y z = .ok (hqsVal h α y z)) := by
+  obtain ⟨hX, _, hpairs, _⟩ := dec_sfMean_val hsc
+  have hdom : ∀ p ∈ ys.zip x, hqsDom h p.1 p.2 := by
+    intro p hp
+    obtain ⟨v, hv'⟩ := hpairs p hp
+    by_contra hn
+    rw [(dec_sfPair_hqs hs p.1 p.2).2 hn] at hv'
+    cases hv'
+  have hY : ∀ y ∈ ys, gDom h y := by
+    intro y hy
+    obtain ⟨i, hi, rfl⟩ := List.getElem_of_mem hy
+    have : (ys[i], x[i]'(by omega)) ∈ ys.zip x := by
+      rw [List.mem_iff_getElem]
+      exact ⟨i, by simp; omega, by simp⟩
+    exact ((hqsDom_iff h _ _).mp (hdom _ this)).1
+  have hxz : ∀ z ∈ x, gDom h z := by
+    intro z hz
+    obtain ⟨i, hi, rfl⟩ := List.getElem_of_mem hz
+    have : (ys[i]'(by omega), x[i]) ∈ ys.zip x := by
+      rw [List.mem_iff_getElem]
+      exact ⟨i, by simp; omega, by simp⟩
+    exact ((hqsDom_iff h _ _).mp (hdom _ this)).2
+  have hymin : gDom h (ys.foldl min ys[0]!) := by
+    obtain ⟨v, hv'⟩ := (dec_sfPair_spec sf _ _).1 ((dec_yminAllowed_iff sf ys w).mp hallowed)
+    have : hqsDom h ys[0]! (ys.foldl min ys[0]!) := by
+      by_contra hn
+      rw [(dec_sfPair_hqs hs _ _).2 hn] at hv'
+      cases hv'
+    exact ((hqsDom_iff h _ _).mp this).2
+  refine ⟨hY, hxz, ?_, ?_⟩
+  · rintro v ⟨a, ha, hav⟩
+    exact dec_gDom_up hymin (le_trans ((dec_lmin_spec ys hne).2 a ha) hav)
+  · exact fun y hy z hz => (dec_sfPair_hqs hs y z).1 ((hqsDom_iff h y z).mpr ⟨hY y hy, hz⟩)
+
+/-- the marginal mid-quantile is not below the smallest observation -/
+theorem dec_marginal_quantile_ge {lv : ℝ} (h0 : 0 < lv) (h1 : lv < 1) {ys : List ℝ}
+    {w : Option (List ℝ)} {marg : ℝ} (hne : ys ≠ [])
+    (h : functionalVal .quantile lv ys w = .ok marg) : ∃ a ∈ ys, a ≤ marg := by
+  simp only [functionalVal] at h
+  have hm := (Except.ok.inj h).symm
+  have hdne : obsOf ys none ≠ [] := by
+    simp only [obsOf]
+    intro he
+    exact hne (List.map_eq_nil_iff.mp he)
+  obtain ⟨o, ho, he⟩ := List.mem_map.mp (qLower_mem lv h1 (obsOf ys none) hdne)
+  have hle := (mid_between (qLower_le_qUpper lv h0 h1 (obsOf ys none) hdne)).1
+  refine ⟨o.1, ?_, by rw [hm, he]; exact hle⟩
+  simp only [obsOf] at ho
+  obtain ⟨y, hy, rfl⟩ := List.mem_map.mp ho
+  exact hy
+
+/-- **The homogeneous quantile scores (pinball loss included) at `ℝ`**: `mcb ≥ 0`, `dsc ≥ 0`,
+`mcb = 0` for recalibrated forecasts, `unc` is the best admissible constant score — whenever
+`min y` is an admissible prediction -/
+theorem dec_hqs_all {sf : SF ℝ} {h α : ℝ} (hs : dec_IsHQS sf h α) (ys : List ℝ)
+    (cols : List (List ℝ)) (w : Option (List ℝ)) (rows : List (DecompRow ℝ))
+    (hd : decompose sf none none ys cols w = .ok rows)
+    (hallowed : dec_yminAllowed sf ys w = true) :
+    (∀ r ∈ rows, 0 ≤ r.mcb ∧ 0 ≤ r.dsc) ∧
+    (∀ i (hi : i < cols.length) (hr : i < rows.length) (X₀ tx₀ ty₀ : List ℝ),
+      isoFit (some .quantile) α true X₀ ys w = .ok (tx₀, ty₀) →
+      cols[i] = X₀.map (interp tx₀ ty₀) → rows[i].mcb = 0) ∧
+    (∀ c s, gDom h c → sfMean sf ys (ys.map fun _ => c) w = .ok s → ∀ r ∈ rows, r.unc ≤ s) := by
+  have hα0 : 0 < α := by rw [hs.2.1]; exact hs.2.2.1
+  have hα1 : α < 1 := by rw [hs.2.1]; exact hs.2.2.2.1
+  obtain ⟨f, lv', marg, sm, hv, hsh, hm, hrows⟩ := (dec_ok_iff sf none none ys cols w rows).mp hd
+  obtain ⟨hm1, hm2⟩ := dec_marginal_ok hm
+  obtain ⟨_, _, hne⟩ := (dec_shape_ok ys cols w).mp hsh
+  rw [dec_validate_hqs hs] at hv
+  obtain ⟨rfl, rfl⟩ := Prod.mk.inj (Except.ok.inj hv)
+  have hmge := dec_marginal_quantile_ge hα0 hα1 hne hm1
+  refine ⟨?_, ?_, ?_⟩
+  · intro r hr
+    obtain ⟨x, hx, hrow⟩ := dec_mapM_mem hrows hr
+    obtain ⟨_, _, _, _, hsc, _, _⟩ := (dec_row_ok sf _ _ ys w sm x r).mp hrow
+    obtain ⟨hY, hxz, hZ, hS⟩ := dec_hqs_setting hs hallowed hne hsc
+    exact dec_row_signs sf .quantile α (hqsVal h α) (gDom h) ys w hS
+      (dec_fitOpt_hqs h α hα0 hα1 ys hY hZ) hZ hallowed marg sm hm2 (hZ _ hmge) x hxz r hrow
+  · intro i hi hr X₀ tx₀ ty₀ h₀ hx
+    have hrow := dec_mapM_get hrows i hi hr
+    obtain ⟨_, _, _, _, hsc, _, _⟩ := (dec_row_ok sf _ _ ys w sm cols[i] rows[i]).mp hrow
+    obtain ⟨hY, _, hZ, hS⟩ := dec_hqs_setting hs hallowed hne hsc
+    rw [hx] at hrow
+    exact dec_row_mcb_zero sf _ _ (hqsVal h α) (gDom h) ys w hS
+      (dec_fitOpt_hqs h α hα0 hα1 ys hY hZ) hZ hallowed sm X₀ tx₀ ty₀ h₀ rows[i] hrow
+  · intro c s hc hs' r hr
+    obtain ⟨x, hx, hrow⟩ := dec_mapM_mem hrows hr
+    obtain ⟨_, _, _, _, hsc, _, he⟩ := (dec_row_ok sf _ _ ys w sm x r).mp hrow
+    obtain ⟨hY, _, hZ, hS⟩ := dec_hqs_setting hs hallowed hne hsc
+    rw [he]
+    exact dec_unc_best_const sf _ _ (by decide) (hqsVal h α) (gDom h) ys w hS
+      (dec_fitOpt_hqs h α hα0 hα1 ys hY hZ) marg sm hm1 hm2 (hZ _ hmge) x r hrow c s hc hs'
+
+end RealHQS
+
+/-! ### `ElementaryScore` (any ordered field: no `ScoreOps` operation is called) -/
+
+section Elem
+variable {K : Type} [Field K] [LinearOrder K] [IsStrictOrderedRing K]
+
+/-- the per-pair value of `ElementaryScore(eta=η, functional=f, level=α)` -/
+def dec_elemVal (f : Functional) (α η y z : K) : K :=
+  (leInd η z - leInd η y) *
+    (match f with
+      | .mean => η - y
+      | .median => (if y < η then 1 else 0) - half
+      | .expectile => two * absK (geInd η y - α) * (η - y)
+      | .quantile => (if y < η then 1 else 0) - α)
+
+theorem dec_elemScore_ok (f : Functional) (α η y z : K) (hα0 : 0 < α) (hα1 : α < 1) :
+    elemScore (some f) α η y z = .ok (dec_elemVal f α η y z) := by
+  have hc : ¬ (α ≤ 0 ∨ 1 ≤ α) := by
+    rintro (h | h)
+    · exact absurd hα0 (not_lt.mpr h)
+    · exact absurd hα1 (not_lt.mpr h)
+  unfold elemScore dec_elemVal
+  rw [if_neg hc]
+  cases f <;> simp [identFn, hc] <;> rfl
+
+theorem dec_leInd_step (η t c : K) (htc : t ≤ c) :
+    (leInd η c - leInd η t = 0) ∨ (t < η ∧ η ≤ c ∧ leInd η c - leInd η t = 1) := by
+  unfold leInd
+  by_cases h1 : η ≤ t
+  · rw [if_pos h1, if_pos (le_trans h1 htc)]; left; ring
+  · by_cases h2 : η ≤ c
+    · rw [if_neg h1, if_pos h2]; right; exact ⟨not_le.mp h1, h2, by ring⟩
+    · rw [if_neg h1, if_neg h2]; left; ring
+
+theorem dec_leInd_mono (η : K) {a b : K} (h : a ≤ b) : leInd η a ≤ leInd η b := by
+  rcases dec_leInd_step η a b h with h0 | ⟨_, _, h1⟩ <;> linarith
+
+/-- elementary score of the mean -/
+def dec_elemMean (α η : K) : OSScore (meanFun (K := K)) where
+  S o z := o.2 * dec_elemVal .mean α η o.1 z
+  ψ z := leInd η z
+  dom _ := True
+  ψ_mono := fun _ _ _ _ h => dec_leInd_mono η h
+  up := by
+    intro o t c ho _ _ htc
+    have hw : 0 < o.2 := ho
+    simp only [meanFun, dec_elemVal]
+    rcases dec_leInd_step η t c htc with h0 | ⟨h1, _, h2⟩
+    · have : leInd η c = leInd η t := by linarith
+      rw [this]; simp
+    · have e : o.2 * ((leInd η c - leInd η o.1) * (η - o.1)) - o.2 * ((leInd η t - leInd η o.1) * (η - o.1))
+          = o.2 * (η - o.1) * (leInd η c - leInd η t) := by ring
+      rw [e, h2]
+      nlinarith
+  dn := by
+    intro o t c ho _ _ hct
+    have hw : 0 < o.2 := ho
+    simp only [meanFun, dec_elemVal]
+    rcases dec_leInd_step η c t hct with h0 | ⟨h1, h3, h2⟩
+    · have : leInd η c = leInd η t := by linarith
+      rw [this]; simp
+    · have e : o.2 * ((leInd η c - leInd η o.1) * (η - o.1)) - o.2 * ((leInd η t - leInd η o.1) * (η - o.1))
+          = - (o.2 * (η - o.1) * (leInd η t - leInd η c)) := by ring
+      have e' : leInd η c - leInd η t = -1 := by linarith
+      rw [e, h2, e']
+      nlinarith
+
+theorem dec_absK_eWeight (α : K) (hα0 : 0 < α) (hα1 : α < 1) (η : K) (o : Obs K) :
+    absK (geInd η o.1 - α) = eWeight α η o := by
+  unfold absK geInd eWeight
+  by_cases h : o.1 ≤ η
+  · rw [if_pos h, if_pos h, if_neg (by linarith)]
+  · rw [if_neg h, if_neg h, if_pos (by linarith)]; ring
+
+/-- elementary score of the expectile -/
+def dec_elemExpectile (α : K) (hα0 : 0 < α) (hα1 : α < 1) (η : K) :
+    OSScore (expectileFun α hα0 hα1) where
+  S o z := o.2 * dec_elemVal .expectile α η o.1 z
+  ψ z := two * leInd η z
+  dom _ := True
+  ψ_mono := fun _ _ _ _ h => by
+    have := dec_leInd_mono η h
+    have h2 : (0 : K) ≤ two := by unfold two; linarith
+    exact mul_le_mul_of_nonneg_left this h2
+  up := by
+    intro o t c ho _ _ htc
+    have hw : 0 < o.2 := ho
+    simp only [expectileFun, dec_elemVal, dec_absK_eWeight α hα0 hα1]
+    have h2 : (two : K) = 2 := by unfold two; norm_num
+    rw [h2]
+    rcases dec_leInd_step η t c htc with h0 | ⟨h1, _, h3⟩
+    · have : leInd η c = leInd η t := by linarith
+      rw [this]; simp
+    · have m := (eTerm_lt α hα0 hα1 o hw h1).le
+      have e : o.2 * ((leInd η c - leInd η o.1) * (2 * eWeight α η o * (η - o.1)))
+          - o.2 * ((leInd η t - leInd η o.1) * (2 * eWeight α η o * (η - o.1)))
+          = 2 * (o.2 * eWeight α η o * (η - o.1)) * (leInd η c - leInd η t) := by ring
+      have e' : 2 * leInd η c - 2 * leInd η t = 2 * (leInd η c - leInd η t) := by ring
+      rw [e, e', h3]
+      linarith
+  dn := by
+    intro o t c ho _ _ hct
+    have hw : 0 < o.2 := ho
+    simp only [expectileFun, dec_elemVal, dec_absK_eWeight α hα0 hα1]
+    have h2 : (two : K) = 2 := by unfold two; norm_num
+    rw [h2]
+    rcases dec_leInd_step η c t hct with h0 | ⟨h1, h4, h3⟩
+    · have : leInd η c = leInd η t := by linarith
+      rw [this]; simp
+    · have m : o.2 * eWeight α η o * (η - o.1) ≤ o.2 * eWeight α t o * (t - o.1) := by
+        rcases eq_or_lt_of_le h4 with he | hl
+        · rw [he]
+        · exact (eTerm_lt α hα0 hα1 o hw hl).le
+      have e : o.2 * ((leInd η c - leInd η o.1) * (2 * eWeight α η o * (η - o.1)))
+          - o.2 * ((leInd η t - leInd η o.1) * (2 * eWeight α η o * (η - o.1)))
+          = - (2 * (o.2 * eWeight α η o * (η - o.1)) * (leInd η t - leInd η c)) := by ring
+      have e' : 2 * leInd η c - 2 * leInd η t = -(2 * (leInd η t - leInd η c)) := by ring
+      rw [e, e', h3]
+      linarith
+
+/-- elementary score of the quantile (with the strict convention `1{y < η}` of the code) -/
+def dec_elemQuantile (α : K) (hα0 : 0 < α) (hα1 : α < 1) (η : K) :
+    OSScore (dec_restrict (quantFun α hα0 hα1) (fun _ => True)) where
+  S o z := dec_elemVal .quantile α η o.1 z
+  ψ z := leInd η z
+  dom _ := True
+  ψ_mono := fun _ _ _ _ h => dec_leInd_mono η h
+  up := by
+    intro o t c _ _ _ htc
+    simp only [dec_restrict, quantFun, dec_elemVal]
+    rcases dec_leInd_step η t c htc with h0 | ⟨h1, _, h3⟩
+    · have : leInd η c = leInd η t := by linarith
+      rw [this]; simp
+    · have e : (leInd η c - leInd η o.1) * ((if o.1 < η then 1 else 0) - α)
+          - (leInd η t - leInd η o.1) * ((if o.1 < η then 1 else 0) - α)
+          = ((if o.1 < η then (1 : K) else 0) - α) * (leInd η c - leInd η t) := by ring
+      rw [e, h3, mul_one, mul_one]
+      by_cases hy : o.1 ≤ t
+      · rw [if_pos hy, if_pos (lt_of_le_of_lt hy h1)]
+      · rw [if_neg hy]
+        split_ifs <;> linarith
+  dn := by
+    intro o t c _ _ _ hct
+    simp only [dec_restrict, quantFun, dec_elemVal]
+    rcases dec_leInd_step η c t hct with h0 | ⟨h1, h4, h3⟩
+    · have : leInd η c = leInd η t := by linarith
+      rw [this]; simp
+    · have e : (leInd η c - leInd η o.1) * ((if o.1 < η then 1 else 0) - α)
+          - (leInd η t - leInd η o.1) * ((if o.1 < η then 1 else 0) - α)
+          = - (((if o.1 < η then (1 : K) else 0) - α) * (leInd η t - leInd η c)) := by ring
+      have e' : leInd η c - leInd η t = -1 := by linarith
+      rw [e, e', h3, mul_one]
+      by_cases hy : o.1 < η
+      · rw [if_pos hy, if_pos (lt_of_lt_of_le hy h4)]; linarith
+      · rw [if_neg hy]
+        split_ifs <;> linarith
+
+/-- the effective functional and level `decompose` infers for an elementary score -/
+def dec_elemEff (f₀ : Functional) (α : K) : Functional × K :=
+  match f₀ with
+  | .mean => (.mean, half)
+  | .median => (.quantile, half)
+  | .expectile => (.expectile, α)
+  | .quantile => (.quantile, α)
+
+/-- **every elementary score is minimised by the isotonic fit of its functional** -/
+theorem dec_elem_fitOpt (f₀ : Functional) (α η : K) (hα0 : 0 < α) (hα1 : α < 1) (ys : List K) :
+    dec_FitOpt (dec_elemEff f₀ α).1 (dec_elemEff f₀ α).2 (dec_elemVal f₀ α η) (fun _ => True) ys := by
+  cases f₀ with
+  | mean =>
+    exact dec_fitOpt_of_gpava (dec_elemMean α η) (dec_gpavaFit_mean half) _ (fun _ _ => rfl) ys
+      (fun _ _ _ hv => hv) (fun _ _ => trivial)
+  | median =>
+    exact dec_fitOpt_of_quantile half half_pos' half_lt_one (fun _ => True)
+      (dec_elemQuantile half half_pos' half_lt_one η) _ (fun _ _ => rfl) ys (fun _ _ _ => trivial)
+      (fun _ _ => trivial)
+  | expectile =>
+    exact dec_fitOpt_of_gpava (dec_elemExpectile α hα0 hα1 η) (dec_gpavaFit_expectile α hα0 hα1) _
+      (fun _ _ => rfl) ys (fun _ _ _ hv => hv) (fun _ _ => trivial)
+  | quantile =>
+    exact dec_fitOpt_of_quantile α hα0 hα1 (fun _ => True) (dec_elemQuantile α hα0 hα1 η) _
+      (fun _ _ => rfl) ys (fun _ _ _ => trivial) (fun _ _ => trivial)
+
+end Elem
+
+section ElemSF
+variable {K : Type} [Field K] [LinearOrder K] [IsStrictOrderedRing K] [ScoreOps K] [Inhabited K]
+
+omit [Inhabited K] in
+theorem dec_sfPair_elem (sf : SF K) (f₀ : Functional) (η : K) (he : sf.elem = some (some f₀, η))
+    (hα0 : 0 < sf.α) (hα1 : sf.α < 1) (y z : K) :
+    sfPair sf y z = .ok (dec_elemVal f₀ sf.α η y z) := by
+  unfold sfPair
+  rw [he]
+  exact dec_elemScore_ok f₀ sf.α η y z hα0 hα1
+
+omit [Inhabited K] in
+theorem dec_validate_elem (sf : SF K) (f₀ : Functional) (η : K) (he : sf.elem = some (some f₀, η))
+    (hα0 : 0 < sf.α) (hα1 : sf.α < 1) :
+    dec_validate sf none none = .ok (dec_elemEff f₀ sf.α) := by
+  have hf : dec_fn sf none = some f₀ := by simp [dec_fn, sfFunctional, he]
+  have hc : ∀ f : Functional, ¬ ((f = .expectile ∨ f = .quantile) ∧ (sf.α ≤ 0 ∨ 1 ≤ sf.α)) := by
+    rintro f ⟨_, h | h⟩
+    · exact absurd hα0 (not_lt.mpr h)
+    · exact absurd hα1 (not_lt.mpr h)
+  unfold dec_validate
+  rw [hf]
+  cases f₀ with
+  | mean =>
+    have hl : dec_lv sf (some .mean) none = .ok half := rfl
+    rw [hl]; rfl
+  | median =>
+    have hl : dec_lv sf (some .median) none = .ok half := rfl
+    rw [hl]; rfl
+  | expectile =>
+    have hl : dec_lv sf (some .expectile) none = .ok sf.α := by
+      simp [dec_lv, sfLevel, he]; rfl
+    rw [hl]
+    show (if _ then _ else _) = _
+    rw [if_neg (hc .expectile)]
+    rfl
+  | quantile =>
+    have hl : dec_lv sf (some .quantile) none = .ok sf.α := by
+      simp [dec_lv, sfLevel, he]; rfl
+    rw [hl]
+    show (if _ then _ else _) = _
+    rw [if_neg (hc .quantile)]
+    rfl
+
+end ElemSF
+
+
+/-! ## F. Case weights: aggregation and replication (mean and expectile) -/
+
+section WEquiv
+variable {K : Type} [Field K] [LinearOrder K] [IsStrictOrderedRing K] [ScoreOps K] [Inhabited K]
+
+/-- two samples carry the same *weighted* information: every weighted row sum agrees.  Row
+permutations, splitting a row's weight over several copies of the row, and (hence) integer weights
+versus repeated rows are all instances. -/
+def dec_WEquiv (A B : List (Row K)) : Prop :=
+  ∀ Φ : K → K → K, (A.map (fun a => a.w * Φ a.x a.y)).sum = (B.map (fun a => a.w * Φ a.x a.y)).sum
+
+omit [ScoreOps K] [Inhabited K] in
+theorem dec_WEquiv.symm {A B : List (Row K)} (h : dec_WEquiv A B) : dec_WEquiv B A :=
+  fun Φ => (h Φ).symm
+
+omit [ScoreOps K] [Inhabited K] in
+theorem dec_WEquiv_of_perm {A B : List (Row K)} (h : A.Perm B) : dec_WEquiv A B :=
+  fun _ => (h.map _).sum_eq
+
+omit [ScoreOps K] [Inhabited K] in
+/-- with positive weights the two samples have the same forecast values … -/
+theorem dec_WEquiv.mem_x {A B : List (Row K)} (h : dec_WEquiv A B)
+    (hB : ∀ a ∈ B, 0 < a.w) {b : Row K} (hb : b ∈ B) : ∃ a ∈ A, a.x = b.x := by
+  by_contra hcon
+  have h0 : (A.map (fun a => a.w * (if a.x = b.x then (1 : K) else 0))).sum = 0 := by
+    apply List.sum_eq_zero
+    intro t ht
+    obtain ⟨a, ha, rfl⟩ := List.mem_map.mp ht
+    rw [if_neg (fun he => hcon ⟨a, ha, he⟩), mul_zero]
+  have h1 := h (fun x _ => if x = b.x then (1 : K) else 0)
+  rw [h0] at h1
+  have hnn : ∀ t ∈ B.map (fun a => a.w * (if a.x = b.x then (1 : K) else 0)), 0 ≤ t := by
+    intro t ht
+    obtain ⟨a, ha, rfl⟩ := List.mem_map.mp ht
+    exact mul_nonneg (hB a ha).le (by split_ifs <;> norm_num)
+  have := List.single_le_sum hnn _ (List.mem_map.mpr ⟨b, hb, rfl⟩)
+  rw [if_pos rfl, mul_one, ← h1] at this
+  exact absurd (hB b hb) (not_lt.mpr this)
+
+omit [ScoreOps K] [Inhabited K] in
+/-- … and the same response values -/
+theorem dec_WEquiv.mem_y {A B : List (Row K)} (h : dec_WEquiv A B)
+    (hB : ∀ a ∈ B, 0 < a.w) {b : Row K} (hb : b ∈ B) : ∃ a ∈ A, a.y = b.y := by
+  by_contra hcon
+  have h0 : (A.map (fun a => a.w * (if a.y = b.y then (1 : K) else 0))).sum = 0 := by
+    apply List.sum_eq_zero
+    intro t ht
+    obtain ⟨a, ha, rfl⟩ := List.mem_map.mp ht
+    rw [if_neg (fun he => hcon ⟨a, ha, he⟩), mul_zero]
+  have h1 := h (fun _ y => if y = b.y then (1 : K) else 0)
+  rw [h0] at h1
+  have hnn : ∀ t ∈ B.map (fun a => a.w * (if a.y = b.y then (1 : K) else 0)), 0 ≤ t := by
+    intro t ht
+    obtain ⟨a, ha, rfl⟩ := List.mem_map.mp ht
+    exact mul_nonneg (hB a ha).le (by split_ifs <;> norm_num)
+  have := List.single_le_sum hnn _ (List.mem_map.mpr ⟨b, hb, rfl⟩)
+  rw [if_pos rfl, mul_one, ← h1] at this
+  exact absurd (hB b hb) (not_lt.mpr this)
+
+omit [ScoreOps K] [Inhabited K] in
+/-- the rows of a sample on which a fit succeeds have positive weights -/
+theorem dec_rows_pos {X y : List K} {w : Option (List K)} (hX : X.length = y.length)
+    (hw : ∀ w', w = some w' → w'.length = y.length) (hpos : ∀ v ∈ dec_wts y w, 0 < v) :
+    ∀ a ∈ fit_rows X y w, 0 < a.w := by
+  intro a ha
+  apply hpos
+  rw [← (dec_fit_rows_cols X y w hX hw).2.2]
+  exact List.mem_map.mpr ⟨a, ha, rfl⟩
+
+/-- **the average score of a function of the forecast only depends on the weighted information** -/
+theorem dec_sfMean_wequiv (sf : SF K) (g : K → K) {X₁ y₁ X₂ y₂ : List K} {w₁ w₂ : Option (List K)}
+    (hX₁ : X₁.length = y₁.length) (hX₂ : X₂.length = y₂.length)
+    (heq : dec_WEquiv (fit_rows X₁ y₁ w₁) (fit_rows X₂ y₂ w₂)) {s₁ s₂ : K}
+    (h₁ : sfMean sf y₁ (X₁.map g) w₁ = .ok s₁) (h₂ : sfMean sf y₂ (X₂.map g) w₂ = .ok s₂) :
+    s₁ = s₂ := by
+  obtain ⟨_, hw₁, _, e₁⟩ := dec_sfMean_val h₁
+  obtain ⟨_, hw₂, _, e₂⟩ := dec_sfMean_val h₂
+  rw [e₁, e₂, dec_total_rows _ g X₁ y₁ w₁ hX₁ hw₁, dec_total_rows _ g X₂ y₂ w₂ hX₂ hw₂,
+    ← (dec_fit_rows_cols X₁ y₁ w₁ hX₁ hw₁).2.2, ← (dec_fit_rows_cols X₂ y₂ w₂ hX₂ hw₂).2.2]
+  have a := heq (fun x y => dec_pairVal sf y (g x))
+  have b := heq (fun _ _ => 1)
+  simp only [mul_one] at b
+  exact congrArg₂ (· / ·) a b
+
+omit [ScoreOps K] [Inhabited K] in
+/-- an identifiable functional only depends on the identification sums -/
+theorem dec_IdFun_T_esum (F : IdFun K) {d d' : List (Obs K)} (hne : d ≠ []) (hne' : d' ≠ [])
+    (hok : ∀ o ∈ d, F.ok o) (hok' : ∀ o ∈ d', F.ok o)
+    (hE : ∀ u, Esum F.Vp d u = Esum F.Vp d' u) : F.T d = F.T d' := by
+  apply le_antisymm
+  · rw [F.spec d hne hok, hE, ← F.spec d' hne' hok']
+  · rw [F.spec d' hne' hok', ← hE, ← F.spec d hne hok]
+
+omit [ScoreOps K] [Inhabited K] in
+/-- sums over the observations `(y, w)` of a sample are weighted row sums -/
+theorem dec_obs_sum (ψ : K → K) (X y : List K) (w : Option (List K)) (hX : X.length = y.length)
+    (hw : ∀ w', w = some w' → w'.length = y.length) :
+    ((y.zip (dec_wts y w)).map (fun o => o.2 * ψ o.1)).sum
+      = ((fit_rows X y w).map (fun a => a.w * ψ a.y)).sum := by
+  obtain ⟨_, h2, h3⟩ := dec_fit_rows_cols X y w hX hw
+  have e : y.zip (dec_wts y w) = (fit_rows X y w).map (fun a => (a.y, a.w)) := by
+    rw [← List.zip_map', h2, h3]
+  rw [e, List.map_map]
+  rfl
+
+omit [ScoreOps K] in
+/-- **the marginal mean / expectile only depends on the weighted information** -/
+theorem dec_functionalVal_wequiv {f : Functional} {lv : K} (hf : f = .mean ∨ f = .expectile)
+    {X₁ y₁ X₂ y₂ : List K} {w₁ w₂ : Option (List K)} {tx ty tx' ty' : List K}
+    (hf₁ : isoFit (some f) lv true X₁ y₁ w₁ = .ok (tx, ty))
+    (hf₂ : isoFit (some f) lv true X₂ y₂ w₂ = .ok (tx', ty'))
+    (heq : dec_WEquiv (fit_rows X₁ y₁ w₁) (fit_rows X₂ y₂ w₂)) {m₁ m₂ : K}
+    (h₁ : functionalVal f lv y₁ w₁ = .ok m₁) (h₂ : functionalVal f lv y₂ w₂ = .ok m₂) :
+    m₁ = m₂ := by
+  obtain ⟨hX₁, hw₁, hne₁, hpos₁⟩ := dec_isoFit_ok_data hf₁
+  obtain ⟨hX₂, hw₂, hne₂, hpos₂⟩ := dec_isoFit_ok_data hf₂
+  have hm : f ≠ .median := by rcases hf with rfl | rfl <;> decide
+  obtain ⟨hF, hq₁⟩ := dec_isoFit_fitOK hm hf₁
+  obtain ⟨_, hq₂⟩ := dec_isoFit_fitOK hm hf₂
+  rw [dec_functionalVal_eq hq₁ hw₁ hne₁ hpos₁ h₁, dec_functionalVal_eq hq₂ hw₂ hne₂ hpos₂ h₂]
+  have hdne : ∀ {y : List K} {w : Option (List K)}, (∀ w', w = some w' → w'.length = y.length) →
+      y ≠ [] → y.zip (dec_wts y w) ≠ [] := by
+    intro y w hw hne he
+    have hl := congrArg List.length he
+    rw [zip_length_of_eq (dec_wts_length y w hw)] at hl
+    exact hne (List.length_eq_zero_iff.mp hl)
+  have hdpos : ∀ {y : List K} {w : Option (List K)}, (∀ v ∈ dec_wts y w, 0 < v) →
+      ∀ o ∈ y.zip (dec_wts y w), 0 < o.2 :=
+    fun hpos o ho => hpos _ (List.of_mem_zip (a := o.1) (b := o.2) ho).2
+  rcases hf with rfl | rfl
+  · show wysum _ / wsum _ = wysum _ / wsum _
+    have e1 : ∀ (X y : List K) (w : Option (List K)), X.length = y.length →
+        (∀ w', w = some w' → w'.length = y.length) →
+        wysum (y.zip (dec_wts y w)) = ((fit_rows X y w).map (fun a => a.w * a.y)).sum := by
+      intro X y w hX hw
+      rw [← dec_obs_sum (fun v => v) X y w hX hw]
+      unfold wysum
+      congr 1
+      apply List.map_congr_left
+      intro o _
+      ring
+    have e2 : ∀ (X y : List K) (w : Option (List K)), X.length = y.length →
+        (∀ w', w = some w' → w'.length = y.length) →
+        wsum (y.zip (dec_wts y w)) = ((fit_rows X y w).map (fun a => a.w * 1)).sum := by
+      intro X y w hX hw
+      rw [← dec_obs_sum (fun _ => 1) X y w hX hw]
+      unfold wsum
+      congr 1
+      apply List.map_congr_left
+      intro o _
+      ring
+    rw [e1 X₁ y₁ w₁ hX₁ hw₁, e1 X₂ y₂ w₂ hX₂ hw₂, e2 X₁ y₁ w₁ hX₁ hw₁, e2 X₂ y₂ w₂ hX₂ hw₂,
+      heq (fun _ y => y), heq (fun _ _ => 1)]
+  · obtain ⟨h0, h1⟩ := hF.lvl (Or.inl rfl)
+    refine dec_IdFun_T_esum (expectileFun lv h0 h1) (hdne hw₁ hne₁) (hdne hw₂ hne₂)
+      (hdpos hpos₁) (hdpos hpos₂) ?_
+    intro u
+    have e : ∀ (X y : List K) (w : Option (List K)), X.length = y.length →
+        (∀ w', w = some w' → w'.length = y.length) →
+        Esum (expectileFun lv h0 h1).Vp (y.zip (dec_wts y w)) u
+          = ((fit_rows X y w).map
+              (fun a => a.w * ((if a.y ≤ u then 1 - lv else lv) * (u - a.y)))).sum := by
+      intro X y w hX hw
+      rw [← dec_obs_sum (fun v => (if v ≤ u then 1 - lv else lv) * (u - v)) X y w hX hw]
+      unfold Esum
+      congr 1
+      apply List.map_congr_left
+      intro o _
+      simp only [expectileFun, eWeight]
+      ring
+    rw [e X₁ y₁ w₁ hX₁ hw₁, e X₂ y₂ w₂ hX₂ hw₂]
+    exact heq (fun _ y => (if y ≤ u then 1 - lv else lv) * (u - y))
+
+/-- the canonical strictly consistent per-pair score of the mean / an expectile -/
+def dec_canon (f : Functional) (α : K) : K → K → K :=
+  match f with
+  | .expectile => fun y z => (if y ≤ z then 1 - α else α) * ((z - y) * (z - y))
+  | _ => fun y z => (z - y) * (z - y)
+
+omit [ScoreOps K] [Inhabited K] in
+theorem dec_canon_eq {f : Functional} (α : K) (hf : f = .mean ∨ f = .expectile) (o : Obs K) (z : K) :
+    fit_scoreOf (some f) α o z = dec_wS (dec_canon f α) o z := by
+  rcases hf with rfl | rfl
+  · simp only [fit_scoreOf, dec_wS, dec_canon]; ring
+  · simp only [fit_scoreOf, dec_wS, dec_canon, eWeight]; ring
+
+omit [ScoreOps K] [Inhabited K] in
+theorem dec_canon_fitOpt {f : Functional} {α : K} (hf : FitOK f α) (hme : f = .mean ∨ f = .expectile)
+    (ys : List K) : dec_FitOpt f α (dec_canon f α) (fun _ => True) ys := by
+  rcases hme with rfl | rfl
+  · exact dec_fitOpt_sq α ys
+  · obtain ⟨h0, h1⟩ := hf.lvl (Or.inl rfl)
+    exact dec_fitOpt_asymSq α h0 h1 ys
+
+omit [ScoreOps K] in
+/-- **uniqueness among functions of the forecast**: a non-decreasing `g` whose canonical total score
+on the training rows is not larger than that of the fitted model agrees with the fitted model at
+every training forecast -/
+theorem dec_recal_unique {f : Functional} {lv : K} (hme : f = .mean ∨ f = .expectile)
+    {X y : List K} {w : Option (List K)} {tx ty : List K}
+    (h : isoFit (some f) lv true X y w = .ok (tx, ty)) (g : K → K) (hg : Monotone g)
+    (hle : total (dec_wS (dec_canon f lv)) (y.zip (dec_wts y w)) (X.map g)
+      ≤ total (dec_wS (dec_canon f lv)) (y.zip (dec_wts y w)) (X.map (interp tx ty))) :
+    ∀ x ∈ X, g x = interp tx ty x := by
+  obtain ⟨hX, hw, _⟩ := fit_isoFit_inv h
+  obtain ⟨yiso, r, hr⟩ := fit_isoFit_exists h
+  have F := fit_isoFit_fitted h hr
+  rw [dec_total_sorted _ _ true X y w hX hw, dec_total_sorted _ _ true X y w hX hw,
+    F.train_list] at hle
+  have hr' : isoReg (some f) lv true ((fit_sorted true X y w).map (·.y))
+      (some ((fit_sorted true X y w).map (·.w))) = .ok (yiso, r) := by
+    cases w with
+    | some w' => exact hr
+    | none =>
+      have := dec_sorted_wts true X y none
+      simp only [Option.map_none, dec_wts] at this
+      simp only [Option.map_none] at hr
+      rw [isoReg_weights_none f hme, this] at hr
+      exact hr
+  have hcong : ∀ zs : List K,
+      total (fit_scoreOf (some f) lv)
+          (((fit_sorted true X y w).map (·.y)).zip ((fit_sorted true X y w).map (·.w))) zs
+        = total (dec_wS (dec_canon f lv))
+          (((fit_sorted true X y w).map (·.y)).zip ((fit_sorted true X y w).map (·.w))) zs :=
+    fun zs => dec_total_congr _ _ _ zs (fun o _ z => dec_canon_eq lv hme o z)
+  have huniq := (fit_weighted_opt_unique hr').2 (((fit_sorted true X y w).map (·.x)).map g)
+    (by simp) (by
+      rw [monoDir_true, List.pairwise_map]
+      exact (fit_sorted_x true _).imp (fun hab => hg hab))
+    (by rw [hcong, hcong]; exact hle)
+  rw [← F.train_list] at huniq
+  intro x hx
+  have hxs : x ∈ (fit_sorted true X y w).map (·.x) := by
+    have hperm : (fit_sorted true X y w).Perm (fit_rows X y w) := List.mergeSort_perm _ _
+    have := (hperm.map (·.x)).mem_iff (a := x)
+    rw [(dec_fit_rows_cols X y w hX hw).1] at this
+    exact this.mpr hx
+  exact List.map_inj_left.mp huniq x hxs
+
+omit [ScoreOps K] in
+/-- **the recalibrated forecasts only depend on the weighted information** (mean, expectile): two
+weighted-equivalent samples have fitted models that agree on all training forecasts -/
+theorem dec_fit_wequiv {f : Functional} {lv : K} (hme : f = .mean ∨ f = .expectile)
+    {X₁ y₁ X₂ y₂ : List K} {w₁ w₂ : Option (List K)} {tx₁ ty₁ tx₂ ty₂ : List K}
+    (hf₁ : isoFit (some f) lv true X₁ y₁ w₁ = .ok (tx₁, ty₁))
+    (hf₂ : isoFit (some f) lv true X₂ y₂ w₂ = .ok (tx₂, ty₂))
+    (heq : dec_WEquiv (fit_rows X₁ y₁ w₁) (fit_rows X₂ y₂ w₂)) :
+    (∀ x ∈ X₁, interp tx₂ ty₂ x = interp tx₁ ty₁ x) ∧
+      (∀ x ∈ X₂, interp tx₂ ty₂ x = interp tx₁ ty₁ x) := by
+  obtain ⟨hX₁, hw₁, _, hpos₁⟩ := dec_isoFit_ok_data hf₁
+  obtain ⟨hX₂, hw₂, _, hpos₂⟩ := dec_isoFit_ok_data hf₂
+  have hm : f ≠ .median := by rcases hme with rfl | rfl <;> decide
+  obtain ⟨hF, _⟩ := dec_isoFit_fitOK hm hf₁
+  have hopt₁ := dec_canon_fitOpt hF hme y₁
+  have hopt₂ := dec_canon_fitOpt hF hme y₂
+  have key : ∀ g : K → K,
+      total (dec_wS (dec_canon f lv)) (y₁.zip (dec_wts y₁ w₁)) (X₁.map g)
+        = total (dec_wS (dec_canon f lv)) (y₂.zip (dec_wts y₂ w₂)) (X₂.map g) := by
+    intro g
+    rw [dec_total_rows _ g X₁ y₁ w₁ hX₁ hw₁, dec_total_rows _ g X₂ y₂ w₂ hX₂ hw₂]
+    exact heq (fun x y => dec_canon f lv y (g x))
+  have i2 := dec_recal_le hf₂ hopt₂ (interp tx₁ ty₁) (dec_interp_monotone hf₁) (fun _ _ => trivial)
+  have h1 := dec_recal_unique hme hf₁ (interp tx₂ ty₂) (dec_interp_monotone hf₂) (by
+    rw [key (interp tx₂ ty₂), key (interp tx₁ ty₁)]; exact i2)
+  refine ⟨h1, ?_⟩
+  intro x hx
+  obtain ⟨k, hk, rfl⟩ := List.getElem_of_mem hx
+  have hb : (fit_rows X₂ y₂ w₂)[k]'(by
+      have := congrArg List.length (dec_fit_rows_cols X₂ y₂ w₂ hX₂ hw₂).1
+      rw [List.length_map] at this; omega) ∈ fit_rows X₂ y₂ w₂ := List.getElem_mem _
+  obtain ⟨a, ha, hax⟩ := heq.mem_x (dec_rows_pos hX₂ hw₂ hpos₂) hb
+  have hxk : ((fit_rows X₂ y₂ w₂)[k]'(by
+      have := congrArg List.length (dec_fit_rows_cols X₂ y₂ w₂ hX₂ hw₂).1
+      rw [List.length_map] at this; omega)).x = X₂[k] := by
+    have := (dec_fit_rows_cols X₂ y₂ w₂ hX₂ hw₂).1
+    have h' := congrArg (fun l => l[k]?) this
+    simp only [List.getElem?_map] at h'
+    rw [List.getElem?_eq_getElem (by
+      have := congrArg List.length (dec_fit_rows_cols X₂ y₂ w₂ hX₂ hw₂).1
+      rw [List.length_map] at this; omega), List.getElem?_eq_getElem hk] at h'
+    exact Option.some.inj h'
+  rw [← hxk, ← hax]
+  apply h1
+  rw [← (dec_fit_rows_cols X₁ y₁ w₁ hX₁ hw₁).1]
+  exact List.mem_map.mpr ⟨a, ha, rfl⟩
+
+/-- **the decomposition only depends on the weighted information** (mean and expectile; one
+column; both calls succeed; `min y` admissible, so that no domain repair takes place) -/
+theorem dec_decompose_wequiv (sf : SF K) (fn : Option (Option Functional)) (lv : Option K)
+    {X₁ y₁ X₂ y₂ : List K} {w₁ w₂ : Option (List K)}
+    (heq : dec_WEquiv (fit_rows X₁ y₁ w₁) (fit_rows X₂ y₂ w₂))
+    (hfl₁ : dec_yminAllowed sf y₁ w₁ = true) (hfl₂ : dec_yminAllowed sf y₂ w₂ = true)
+    {f : Functional} {lv' : K} (hv : dec_validate sf fn lv = .ok (f, lv'))
+    (hme : f = .mean ∨ f = .expectile) {r₁ r₂ : DecompRow K}
+    (h₁ : decompose sf fn lv y₁ [X₁] w₁ = .ok [r₁]) (h₂ : decompose sf fn lv y₂ [X₂] w₂ = .ok [r₂]) :
+    r₁ = r₂ := by
+  obtain ⟨f₁, l₁, marg₁, sm₁, hv₁, _, hm₁, hrows₁⟩ := (dec_ok_iff sf fn lv y₁ [X₁] w₁ [r₁]).mp h₁
+  obtain ⟨f₂, l₂, marg₂, sm₂, hv₂, _, hm₂, hrows₂⟩ := (dec_ok_iff sf fn lv y₂ [X₂] w₂ [r₂]).mp h₂
+  rw [hv] at hv₁ hv₂
+  cases hv₁
+  cases hv₂
+  obtain ⟨rc₁, s₁, sR₁, hrec₁, hs₁, hsR₁, rfl⟩ := (dec_row_ok sf f lv' y₁ w₁ sm₁ X₁ r₁).mp
+    (dec_mapM_get hrows₁ 0 (by simp) (by simp))
+  obtain ⟨rc₂, s₂, sR₂, hrec₂, hs₂, hsR₂, rfl⟩ := (dec_row_ok sf f lv' y₂ w₂ sm₂ X₂ r₂).mp
+    (dec_mapM_get hrows₂ 0 (by simp) (by simp))
+  obtain ⟨tx₁, ty₁, hf₁, rfl⟩ := dec_recal_ok_allowed hfl₁ hrec₁
+  obtain ⟨tx₂, ty₂, hf₂, rfl⟩ := dec_recal_ok_allowed hfl₂ hrec₂
+  obtain ⟨hX₁, _, _, _⟩ := dec_isoFit_ok_data hf₁
+  obtain ⟨hX₂, _, _, _⟩ := dec_isoFit_ok_data hf₂
+  obtain ⟨_, hg₂⟩ := dec_fit_wequiv hme hf₁ hf₂ heq
+  have hrc₂ : X₂.map (interp tx₂ ty₂) = X₂.map (interp tx₁ ty₁) := List.map_congr_left hg₂
+  rw [hrc₂] at hsR₂
+  obtain ⟨hma₁, hsm₁⟩ := dec_marginal_ok hm₁
+  obtain ⟨hma₂, hsm₂⟩ := dec_marginal_ok hm₂
+  have emarg : marg₁ = marg₂ := dec_functionalVal_wequiv hme hf₁ hf₂ heq hma₁ hma₂
+  subst emarg
+  have es : s₁ = s₂ := by
+    have a₁ : sfMean sf y₁ (X₁.map id) w₁ = .ok s₁ := by rw [List.map_id]; exact hs₁
+    have a₂ : sfMean sf y₂ (X₂.map id) w₂ = .ok s₂ := by rw [List.map_id]; exact hs₂
+    exact dec_sfMean_wequiv sf id hX₁ hX₂ heq a₁ a₂
+  have esR : sR₁ = sR₂ := dec_sfMean_wequiv sf (interp tx₁ ty₁) hX₁ hX₂ heq hsR₁ hsR₂
+  have esm : sm₁ = sm₂ := by
+    have a₁ : sfMean sf y₁ (X₁.map fun _ => marg₁) w₁ = .ok sm₁ := by
+      rw [List.map_const', hX₁, ← List.map_const']; exact hsm₁
+    have a₂ : sfMean sf y₂ (X₂.map fun _ => marg₁) w₂ = .ok sm₂ := by
+      rw [List.map_const', hX₂, ← List.map_const']; exact hsm₂
+    exact dec_sfMean_wequiv sf (fun _ => marg₁) hX₁ hX₂ heq a₁ a₂
+  rw [es, esR, esm]
+
+omit [ScoreOps K] in
+/-- lists with the same elements have the same least element -/
+theorem dec_lmin_of_mem_iff {l l' : List K} (hne : l ≠ []) (hne' : l' ≠ [])
+    (h : ∀ x, x ∈ l ↔ x ∈ l') : l.foldl min l[0]! = l'.foldl min l'[0]! := by
+  obtain ⟨h1, h2⟩ := dec_lmin_spec l hne
+  obtain ⟨h1', h2'⟩ := dec_lmin_spec l' hne'
+  exact le_antisymm (h2 _ ((h _).mpr h1')) (h2' _ ((h _).mp h1))
+
+/-- the `yminAllowed` flags of two samples with the same smallest observation agree when the
+forecasts can be scored at all -/
+theorem dec_flags_eq' (sf : SF K) {X₁ y₁ X₂ y₂ : List K} {w₁ w₂ : Option (List K)}
+    (hne₁ : y₁ ≠ []) (hne₂ : y₂ ≠ [])
+    (hymin : y₁.foldl min y₁[0]! = y₂.foldl min y₂[0]!) {s₁ s₂ : K}
+    (h₁ : sfMean sf y₁ X₁ w₁ = .ok s₁) (h₂ : sfMean sf y₂ X₂ w₂ = .ok s₂) :
+    dec_yminAllowed sf y₁ w₁ = dec_yminAllowed sf y₂ w₂ := by
+  have key : ∀ {X y : List K} {w : Option (List K)} {s : K}, y ≠ [] → sfMean sf y X w = .ok s →
+      ∃ z, dec_sfOK sf y[0]! z := by
+    intro X y w s hy hs
+    obtain ⟨hl, _, _, _⟩ := dec_sfMean_val hs
+    have hp := dec_sfMean_pairs_ok hs
+    cases y with
+    | nil => exact absurd rfl hy
+    | cons a t =>
+      cases X with
+      | nil => simp at hl
+      | cons b u => exact ⟨b, by simpa using hp (a, b) (by simp)⟩
+  obtain ⟨z₁, hz₁⟩ := key hne₁ h₁
+  obtain ⟨z₂, hz₂⟩ := key hne₂ h₂
+  rw [Bool.eq_iff_iff, dec_yminAllowed_iff, dec_yminAllowed_iff, ← hymin]
+  exact ⟨fun h => dec_sfOK_rect sf hz₂ h, fun h => dec_sfOK_rect sf hz₁ h⟩
+
+/-- `dec_decompose_wequiv` with the flag assumed for one of the two samples only -/
+theorem dec_decompose_wequiv' (sf : SF K) (fn : Option (Option Functional)) (lv : Option K)
+    {X₁ y₁ X₂ y₂ : List K} {w₁ w₂ : Option (List K)}
+    (heq : dec_WEquiv (fit_rows X₁ y₁ w₁) (fit_rows X₂ y₂ w₂))
+    (hfl₁ : dec_yminAllowed sf y₁ w₁ = true)
+    {f : Functional} {lv' : K} (hv : dec_validate sf fn lv = .ok (f, lv'))
+    (hme : f = .mean ∨ f = .expectile) {r₁ r₂ : DecompRow K}
+    (h₁ : decompose sf fn lv y₁ [X₁] w₁ = .ok [r₁]) (h₂ : decompose sf fn lv y₂ [X₂] w₂ = .ok [r₂]) :
+    r₁ = r₂ := by
+  obtain ⟨f₁, l₁, _, sm₁, hv₁, _, _, hrows₁⟩ := (dec_ok_iff sf fn lv y₁ [X₁] w₁ [r₁]).mp h₁
+  obtain ⟨f₂, l₂, _, sm₂, hv₂, _, _, hrows₂⟩ := (dec_ok_iff sf fn lv y₂ [X₂] w₂ [r₂]).mp h₂
+  obtain ⟨rc₁, s₁, _, hrec₁, hs₁, _, _⟩ := (dec_row_ok sf f₁ l₁ y₁ w₁ sm₁ X₁ r₁).mp
+    (dec_mapM_get hrows₁ 0 (by simp) (by simp))
+  obtain ⟨rc₂, s₂, _, hrec₂, hs₂, _, _⟩ := (dec_row_ok sf f₂ l₂ y₂ w₂ sm₂ X₂ r₂).mp
+    (dec_mapM_get hrows₂ 0 (by simp) (by simp))
+  obtain ⟨_, _, hf₁, _⟩ := (dec_recal_ok sf f₁ l₁ y₁ w₁ X₁ rc₁).mp hrec₁
+  obtain ⟨_, _, hf₂, _⟩ := (dec_recal_ok sf f₂ l₂ y₂ w₂ X₂ rc₂).mp hrec₂
+  obtain ⟨hX₁, hw₁, hne₁, hpos₁⟩ := dec_isoFit_ok_data hf₁
+  obtain ⟨hX₂, hw₂, hne₂, hpos₂⟩ := dec_isoFit_ok_data hf₂
+  have hmem : ∀ v, v ∈ y₁ ↔ v ∈ y₂ := by
+    have c₁ := (dec_fit_rows_cols X₁ y₁ w₁ hX₁ hw₁).2.1
+    have c₂ := (dec_fit_rows_cols X₂ y₂ w₂ hX₂ hw₂).2.1
+    intro v
+    constructor
+    · intro hv'
+      rw [← c₁] at hv'
+      obtain ⟨b, hb, rfl⟩ := List.mem_map.mp hv'
+      obtain ⟨a, ha, hay⟩ := heq.symm.mem_y (dec_rows_pos hX₁ hw₁ hpos₁) hb
+      rw [← c₂, ← hay]
+      exact List.mem_map.mpr ⟨a, ha, rfl⟩
+    · intro hv'
+      rw [← c₂] at hv'
+      obtain ⟨b, hb, rfl⟩ := List.mem_map.mp hv'
+      obtain ⟨a, ha, hay⟩ := heq.mem_y (dec_rows_pos hX₂ hw₂ hpos₂) hb
+      rw [← c₁, ← hay]
+      exact List.mem_map.mpr ⟨a, ha, rfl⟩
+  have hfl := dec_flags_eq' sf hne₁ hne₂ (dec_lmin_of_mem_iff hne₁ hne₂ hmem) hs₁ hs₂
+  exact dec_decompose_wequiv sf fn lv heq hfl₁ (hfl ▸ hfl₁) hv hme h₁ h₂
+
+/-! ### integer weights = repeated rows -/
+
+/-- repeat the `i`-th entry `n[i]` times -/
+def dec_rep {α : Type} : List α → List Nat → List α
+  | a :: l, k :: n => List.replicate k a ++ dec_rep l n
+  | _, _ => []
+
+omit [ScoreOps K] [Inhabited K] in
+theorem dec_fit_rows_rep (X y : List K) (n : List Nat) :
+    fit_rows (dec_rep X n) (dec_rep y n) none
+      = dec_rep (List.zipWith (fun (p : K × K) (_ : Nat) => (⟨p.1, p.2, 1⟩ : Row K)) (List.zip X y) n) n := by
+  unfold fit_rows
+  induction X generalizing y n with
+  | nil => simp [dec_rep]
+  | cons a X ih =>
+    cases y with
+    | nil => cases n <;> simp [dec_rep]
+    | cons b y =>
+      cases n with
+      | nil => simp [dec_rep]
+      | cons k n =>
+        simp only [dec_rep, List.zip_cons_cons, List.zipWith_cons_cons, List.map_append,
+          List.map_replicate]
+        rw [List.zip_append (by simp), List.zipWith_append (by simp), ih y n]
+        congr 1
+        simp
+
+omit [ScoreOps K] [Inhabited K] in
+/-- **integer case weights carry the same weighted information as physically repeated rows** -/
+theorem dec_WEquiv_rep (X y : List K) (n : List Nat) (hX : X.length = y.length)
+    (hn : n.length = y.length) :
+    dec_WEquiv (fit_rows X y (some (n.map (fun k : Nat => (k : K)))))
+      (fit_rows (dec_rep X n) (dec_rep y n) none) := by
+  intro Φ
+  rw [dec_fit_rows_rep]
+  unfold fit_rows
+  simp only
+  induction X generalizing y n with
+  | nil => simp [dec_rep]
+  | cons a X ih =>
+    cases y with
+    | nil => simp at hX
+    | cons b y =>
+      cases n with
+      | nil => simp at hn
+      | cons k n =>
+        simp only [List.map_cons, List.zip_cons_cons, List.zipWith_cons_cons, List.sum_cons,
+          dec_rep, List.map_append, List.sum_append, List.map_replicate, List.sum_replicate,
+          nsmul_eq_mul]
+        rw [ih y n (by simpa using hX) (by simpa using hn)]
+        ring
+
+end WEquiv
+
+
+/-! ### … with the domain repair -/
+section WEquivRepair
+variable {K : Type} [Field K] [LinearOrder K] [IsStrictOrderedRing K] [ScoreOps K] [Inhabited K]
+
+omit [ScoreOps K] in
+/-- the mask predicate of `repair` only depends on the set of recalibrated values -/
+theorem dec_repairP_of_mem_iff {r₁ r₂ : List K} (h : ∀ v, v ∈ r₁ ↔ v ∈ r₂) (ymin : K) :
+    dec_repairP r₁ ymin = dec_repairP r₂ ymin := by
+  have hf : ∀ v, v ∈ r₁.filter (fun v => decide (ymin < v)) ↔
+      v ∈ r₂.filter (fun v => decide (ymin < v)) := by
+    intro v
+    simp only [List.mem_filter, h v]
+  unfold dec_repairP
+  cases h1 : r₁.filter (fun v => decide (ymin < v)) with
+  | nil =>
+    cases h2 : r₂.filter (fun v => decide (ymin < v)) with
+    | nil => rfl
+    | cons g' gs' =>
+      rw [h1, h2] at hf
+      exact absurd ((hf g').mpr (by simp)) (by simp)
+  | cons g gs =>
+    cases h2 : r₂.filter (fun v => decide (ymin < v)) with
+    | nil =>
+      rw [h1, h2] at hf
+      exact absurd ((hf g).mp (by simp)) (by simp)
+    | cons g' gs' =>
+      rw [h1, h2] at hf
+      have := dec_lmin_of_mem_iff (l := g :: gs) (l' := g' :: gs') (by simp) (by simp) hf
+      simp only [List.getElem!_cons_zero, List.foldl_cons, min_self] at this
+      simp only [this]
+
+omit [ScoreOps K] [Inhabited K] in
+/-- a sum over the selected rows is a weighted row sum with an indicator -/
+theorem dec_sum_filter_map {α : Type} (F : α → Obs K) (Q : Obs K → Bool) (H : Obs K → K)
+    (l : List α) :
+    (((l.map F).filter Q).map H).sum = (l.map (fun a => if Q (F a) then H (F a) else 0)).sum := by
+  induction l with
+  | nil => simp
+  | cons a l ih =>
+    simp only [List.map_cons, List.filter_cons, List.sum_cons]
+    cases hQ : Q (F a)
+    · simp [ih]
+    · simp [ih]
+
+omit [ScoreOps K] [Inhabited K] in
+/-- the functional of the selected rows only depends on the weighted information -/
+theorem dec_T_sel_wequiv {f : Functional} {lv : K} (hF : FitOK f lv)
+    (hme : f = .mean ∨ f = .expectile) {A B : List (Row K)} (heq : dec_WEquiv A B)
+    (hA : ∀ a ∈ A, 0 < a.w) (hB : ∀ a ∈ B, 0 < a.w) (g : K → K) (P : K → Bool)
+    (hneA : (A.map (fun a => ((g a.x, a.w) : Obs K))).filter (fun p => P p.1) ≠ [])
+    (hneB : (B.map (fun a => ((g a.x, a.w) : Obs K))).filter (fun p => P p.1) ≠ []) :
+    dec_T f lv ((A.map (fun a => ((g a.x, a.w) : Obs K))).filter (fun p => P p.1))
+      = dec_T f lv ((B.map (fun a => ((g a.x, a.w) : Obs K))).filter (fun p => P p.1)) := by
+  have hsum : ∀ (H : Obs K → K) (Ψ : K → K), (∀ o : Obs K, H o = o.2 * Ψ o.1) →
+      ∀ l : List (Row K),
+      (((l.map (fun a => ((g a.x, a.w) : Obs K))).filter (fun p => P p.1)).map H).sum
+        = (l.map (fun a => a.w * (if P (g a.x) then Ψ (g a.x) else 0))).sum := by
+    intro H Ψ hH l
+    rw [dec_sum_filter_map]
+    congr 1
+    apply List.map_congr_left
+    intro a _
+    simp only [hH]
+    split_ifs
+    · rfl
+    · rw [mul_zero]
+  have hposA : ∀ o ∈ (A.map (fun a => ((g a.x, a.w) : Obs K))).filter (fun p => P p.1), 0 < o.2 := by
+    intro o ho
+    obtain ⟨a, ha, rfl⟩ := List.mem_map.mp (List.mem_filter.mp ho).1
+    exact hA a ha
+  have hposB : ∀ o ∈ (B.map (fun a => ((g a.x, a.w) : Obs K))).filter (fun p => P p.1), 0 < o.2 := by
+    intro o ho
+    obtain ⟨a, ha, rfl⟩ := List.mem_map.mp (List.mem_filter.mp ho).1
+    exact hB a ha
+  rcases hme with rfl | rfl
+  · show wysum _ / wsum _ = wysum _ / wsum _
+    unfold wysum wsum
+    rw [hsum (fun o => o.1 * o.2) (fun v => v) (fun o => by ring) A,
+      hsum (fun o => o.1 * o.2) (fun v => v) (fun o => by ring) B,
+      hsum (fun o => o.2) (fun _ => 1) (fun o => by ring) A,
+      hsum (fun o => o.2) (fun _ => 1) (fun o => by ring) B,
+      heq (fun x _ => if P (g x) then g x else 0), heq (fun x _ => if P (g x) then 1 else 0)]
+  · obtain ⟨h0, h1⟩ := hF.lvl (Or.inl rfl)
+    refine dec_IdFun_T_esum (expectileFun lv h0 h1) hneA hneB hposA hposB ?_
+    intro u
+    unfold Esum
+    rw [hsum ((expectileFun lv h0 h1).Vp u) (fun v => (if v ≤ u then 1 - lv else lv) * (u - v))
+        (fun o => by simp only [expectileFun, eWeight]; ring) A,
+      hsum ((expectileFun lv h0 h1).Vp u) (fun v => (if v ≤ u then 1 - lv else lv) * (u - v))
+        (fun o => by simp only [expectileFun, eWeight]; ring) B]
+    exact heq (fun x _ => if P (g x) then (if g x ≤ u then 1 - lv else lv) * (u - g x) else 0)
+
+/-- **the recalibration stage, repair included, only depends on the weighted information** (mean,
+expectile; equal `yminAllowed` flags) -/
+theorem dec_recal_wequiv (sf : SF K) {f : Functional} {lv : K} (hme : f = .mean ∨ f = .expectile)
+    {X₁ y₁ X₂ y₂ : List K} {w₁ w₂ : Option (List K)}
+    (heq : dec_WEquiv (fit_rows X₁ y₁ w₁) (fit_rows X₂ y₂ w₂))
+    (hflag : dec_yminAllowed sf y₁ w₁ = dec_yminAllowed sf y₂ w₂) {r₁ r₂ : List K}
+    (h₁ : dec_recal sf f lv y₁ w₁ X₁ = .ok r₁) (h₂ : dec_recal sf f lv y₂ w₂ X₂ = .ok r₂) :
+    ∃ G : K → K, r₁ = X₁.map G ∧ r₂ = X₂.map G := by
+  obtain ⟨tx, ty, hf₁, hc₁⟩ := (dec_recal_ok sf f lv y₁ w₁ X₁ r₁).mp h₁
+  obtain ⟨tx', ty', hf₂, hc₂⟩ := (dec_recal_ok sf f lv y₂ w₂ X₂ r₂).mp h₂
+  obtain ⟨hX₁, hw₁, hne₁, hpos₁⟩ := dec_isoFit_ok_data hf₁
+  obtain ⟨hX₂, hw₂, hne₂, hpos₂⟩ := dec_isoFit_ok_data hf₂
+  have hm : f ≠ .median := by rcases hme with rfl | rfl <;> decide
+  obtain ⟨hF, hq₁⟩ := dec_isoFit_fitOK hm hf₁
+  obtain ⟨_, hq₂⟩ := dec_isoFit_fitOK hm hf₂
+  have hrp₁ := dec_rows_pos hX₁ hw₁ hpos₁
+  have hrp₂ := dec_rows_pos hX₂ hw₂ hpos₂
+  obtain ⟨_, hg₂⟩ := dec_fit_wequiv hme hf₁ hf₂ heq
+  have hrc₂ : X₂.map (interp tx' ty') = X₂.map (interp tx ty) := List.map_congr_left hg₂
+  rw [hrc₂] at hc₂
+  obtain ⟨c1x, c1y, _⟩ := dec_fit_rows_cols X₁ y₁ w₁ hX₁ hw₁
+  obtain ⟨c2x, c2y, _⟩ := dec_fit_rows_cols X₂ y₂ w₂ hX₂ hw₂
+  -- same sets of forecasts and of observations
+  have hmemX : ∀ v, v ∈ X₁ ↔ v ∈ X₂ := by
+    intro v
+    constructor
+    · intro hv
+      rw [← c1x] at hv
+      obtain ⟨b, hb, rfl⟩ := List.mem_map.mp hv
+      obtain ⟨a, ha, hax⟩ := heq.symm.mem_x hrp₁ hb
+      rw [← c2x, ← hax]; exact List.mem_map.mpr ⟨a, ha, rfl⟩
+    · intro hv
+      rw [← c2x] at hv
+      obtain ⟨b, hb, rfl⟩ := List.mem_map.mp hv
+      obtain ⟨a, ha, hax⟩ := heq.mem_x hrp₂ hb
+      rw [← c1x, ← hax]; exact List.mem_map.mpr ⟨a, ha, rfl⟩
+  have hmemY : ∀ v, v ∈ y₁ ↔ v ∈ y₂ := by
+    intro v
+    constructor
+    · intro hv
+      rw [← c1y] at hv
+      obtain ⟨b, hb, rfl⟩ := List.mem_map.mp hv
+      obtain ⟨a, ha, hay⟩ := heq.symm.mem_y hrp₁ hb
+      rw [← c2y, ← hay]; exact List.mem_map.mpr ⟨a, ha, rfl⟩
+    · intro hv
+      rw [← c2y] at hv
+      obtain ⟨b, hb, rfl⟩ := List.mem_map.mp hv
+      obtain ⟨a, ha, hay⟩ := heq.mem_y hrp₂ hb
+      rw [← c1y, ← hay]; exact List.mem_map.mpr ⟨a, ha, rfl⟩
+  have hmemR : ∀ v, v ∈ X₁.map (interp tx ty) ↔ v ∈ X₂.map (interp tx ty) := by
+    intro v
+    simp only [List.mem_map]
+    constructor
+    · rintro ⟨q, hq, rfl⟩; exact ⟨q, (hmemX q).mp hq, rfl⟩
+    · rintro ⟨q, hq, rfl⟩; exact ⟨q, (hmemX q).mpr hq, rfl⟩
+  have hXne₁ : X₁ ≠ [] := by
+    intro he; rw [he] at hX₁; exact hne₁ (List.length_eq_zero_iff.mp hX₁.symm)
+  have hXne₂ : X₂ ≠ [] := by
+    intro he; rw [he] at hX₂; exact hne₂ (List.length_eq_zero_iff.mp hX₂.symm)
+  have hymin := dec_lmin_of_mem_iff hne₁ hne₂ hmemY
+  have hrmin := dec_lmin_of_mem_iff (l := X₁.map (interp tx ty)) (l' := X₂.map (interp tx ty))
+    (by simpa using hXne₁) (by simpa using hXne₂) hmemR
+  rw [← hflag, ← hymin, ← hrmin] at hc₂
+  by_cases hc : dec_yminAllowed sf y₁ w₁ = false ∧
+      (X₁.map (interp tx ty)).foldl min (X₁.map (interp tx ty))[0]! ≤ y₁.foldl min y₁[0]!
+  · rw [if_pos hc] at hc₁ hc₂
+    rw [dec_repair_eq _ _ _ _ _ (by intro w' hw'; rw [List.length_map, hX₁]; exact hw₁ w' hw')] at hc₁
+    rw [dec_repair_eq _ _ _ _ _ (by intro w' hw'; rw [List.length_map, hX₂]; exact hw₂ w' hw')] at hc₂
+    rw [← dec_repairP_of_mem_iff hmemR] at hc₂
+    obtain ⟨v₁, hv₁, e₁⟩ := dec_map_ok hc₁
+    obtain ⟨v₂, hv₂, e₂⟩ := dec_map_ok hc₂
+    have hq₁' : f ≠ .mean → f ≠ .expectile →
+        w₁.map (fun w' => (((X₁.map (interp tx ty)).zip w').filter
+          (fun p => dec_repairP (X₁.map (interp tx ty)) (y₁.foldl min y₁[0]!) p.1)).map (·.2)) = none := by
+      intro a b; rw [hq₁ a b]; rfl
+    have hq₂' : f ≠ .mean → f ≠ .expectile →
+        w₂.map (fun w' => (((X₂.map (interp tx ty)).zip w').filter
+          (fun p => dec_repairP (X₁.map (interp tx ty)) (y₁.foldl min y₁[0]!) p.1)).map (·.2)) = none := by
+      intro a b; rw [hq₂ a b]; rfl
+    have d₁ := dec_functionalVal_val hq₁' hv₁
+    have d₂ := dec_functionalVal_val hq₂' hv₂
+    rw [dec_sel_obs _ _ _ (by intro w' hw'; rw [List.length_map, hX₁]; exact hw₁ w' hw'),
+      dec_zip_map_rows (interp tx ty) X₁ y₁ w₁ hX₁ hw₁] at d₁
+    rw [dec_sel_obs _ _ _ (by intro w' hw'; rw [List.length_map, hX₂]; exact hw₂ w' hw'),
+      dec_zip_map_rows (interp tx ty) X₂ y₂ w₂ hX₂ hw₂] at d₂
+    -- the selection is not empty
+    have hsel : ∀ {X y : List K} {w : Option (List K)}, X.length = y.length →
+        (∀ w', w = some w' → w'.length = y.length) → X ≠ [] →
+        (∀ v, v ∈ X.map (interp tx ty) ↔ v ∈ X₁.map (interp tx ty)) →
+        ((fit_rows X y w).map (fun a => ((interp tx ty a.x, a.w) : Obs K))).filter
+          (fun p => dec_repairP (X₁.map (interp tx ty)) (y₁.foldl min y₁[0]!) p.1) ≠ [] := by
+      intro X y w hX hw hXne hmem
+      have cx := (dec_fit_rows_cols X y w hX hw).1
+      -- a selected value
+      have : ∃ v ∈ X₁.map (interp tx ty),
+          dec_repairP (X₁.map (interp tx ty)) (y₁.foldl min y₁[0]!) v = true := by
+        unfold dec_repairP
+        cases hgr : (X₁.map (interp tx ty)).filter
+            (fun v => decide (y₁.foldl min y₁[0]! < v)) with
+        | nil =>
+          obtain ⟨q, hq⟩ := List.exists_mem_of_ne_nil _ hXne₁
+          exact ⟨interp tx ty q, List.mem_map.mpr ⟨q, hq, rfl⟩, rfl⟩
+        | cons g gs =>
+          have hmemg : gs.foldl min g ∈ (g :: gs) := by
+            rcases foldl_min_mem g gs with h | h
+            · rw [h]; simp
+            · simp [h]
+          rw [← hgr] at hmemg
+          exact ⟨_, (List.mem_filter.mp hmemg).1, by simp⟩
+      obtain ⟨v, hv, hPv⟩ := this
+      obtain ⟨q, hq, rfl⟩ := List.mem_map.mp ((hmem _).mpr hv)
+      rw [← cx] at hq
+      obtain ⟨a, ha, rfl⟩ := List.mem_map.mp hq
+      apply List.ne_nil_of_mem (a := ((interp tx ty a.x, a.w) : Obs K))
+      exact List.mem_filter.mpr ⟨List.mem_map.mpr ⟨a, ha, rfl⟩, hPv⟩
+    have hvv : v₁ = v₂ := by
+      rw [d₁, d₂]
+      exact dec_T_sel_wequiv hF hme heq hrp₁ hrp₂ (interp tx ty) _
+        (hsel hX₁ hw₁ hXne₁ (fun _ => Iff.rfl)) (hsel hX₂ hw₂ hXne₂ (fun v => (hmemR v).symm))
+    refine ⟨fun q => if dec_repairP (X₁.map (interp tx ty)) (y₁.foldl min y₁[0]!) (interp tx ty q)
+      then v₁ else interp tx ty q, ?_, ?_⟩
+    · rw [e₁, List.map_map]; rfl
+    · rw [e₂, ← hvv, List.map_map]; rfl
+  · rw [if_neg hc] at hc₁ hc₂
+    exact ⟨interp tx ty, (Except.ok.inj hc₁).symm, (Except.ok.inj hc₂).symm⟩
+
+/-- **the decomposition only depends on the weighted information** — mean and expectile, domain
+repair included (one column; both calls succeed) -/
+theorem dec_decompose_wequiv_full (sf : SF K) (fn : Option (Option Functional)) (lv : Option K)
+    {X₁ y₁ X₂ y₂ : List K} {w₁ w₂ : Option (List K)}
+    (heq : dec_WEquiv (fit_rows X₁ y₁ w₁) (fit_rows X₂ y₂ w₂))
+    {f : Functional} {lv' : K} (hv : dec_validate sf fn lv = .ok (f, lv'))
+    (hme : f = .mean ∨ f = .expectile) {r₁ r₂ : DecompRow K}
+    (h₁ : decompose sf fn lv y₁ [X₁] w₁ = .ok [r₁]) (h₂ : decompose sf fn lv y₂ [X₂] w₂ = .ok [r₂]) :
+    r₁ = r₂ := by
+  obtain ⟨f₁, l₁, marg₁, sm₁, hv₁, _, hm₁, hrows₁⟩ := (dec_ok_iff sf fn lv y₁ [X₁] w₁ [r₁]).mp h₁
+  obtain ⟨f₂, l₂, marg₂, sm₂, hv₂, _, hm₂, hrows₂⟩ := (dec_ok_iff sf fn lv y₂ [X₂] w₂ [r₂]).mp h₂
+  rw [hv] at hv₁ hv₂
+  cases hv₁
+  cases hv₂
+  obtain ⟨rc₁, s₁, sR₁, hrec₁, hs₁, hsR₁, rfl⟩ := (dec_row_ok sf f lv' y₁ w₁ sm₁ X₁ r₁).mp
+    (dec_mapM_get hrows₁ 0 (by simp) (by simp))
+  obtain ⟨rc₂, s₂, sR₂, hrec₂, hs₂, hsR₂, rfl⟩ := (dec_row_ok sf f lv' y₂ w₂ sm₂ X₂ r₂).mp
+    (dec_mapM_get hrows₂ 0 (by simp) (by simp))
+  obtain ⟨tx₁, ty₁, hf₁, _⟩ := (dec_recal_ok sf f lv' y₁ w₁ X₁ rc₁).mp hrec₁
+  obtain ⟨tx₂, ty₂, hf₂, _⟩ := (dec_recal_ok sf f lv' y₂ w₂ X₂ rc₂).mp hrec₂
+  obtain ⟨hX₁, hw₁, hne₁, hpos₁⟩ := dec_isoFit_ok_data hf₁
+  obtain ⟨hX₂, hw₂, hne₂, hpos₂⟩ := dec_isoFit_ok_data hf₂
+  have hmemY : ∀ v, v ∈ y₁ ↔ v ∈ y₂ := by
+    have c₁ := (dec_fit_rows_cols X₁ y₁ w₁ hX₁ hw₁).2.1
+    have c₂ := (dec_fit_rows_cols X₂ y₂ w₂ hX₂ hw₂).2.1
+    intro v
+    constructor
+    · intro hv'
+      rw [← c₁] at hv'
+      obtain ⟨b, hb, rfl⟩ := List.mem_map.mp hv'
+      obtain ⟨a, ha, hay⟩ := heq.symm.mem_y (dec_rows_pos hX₁ hw₁ hpos₁) hb
+      rw [← c₂, ← hay]
+      exact List.mem_map.mpr ⟨a, ha, rfl⟩
+    · intro hv'
+      rw [← c₂] at hv'
+      obtain ⟨b, hb, rfl⟩ := List.mem_map.mp hv'
+      obtain ⟨a, ha, hay⟩ := heq.mem_y (dec_rows_pos hX₂ hw₂ hpos₂) hb
+      rw [← c₁, ← hay]
+      exact List.mem_map.mpr ⟨a, ha, rfl⟩
+  have hflag := dec_flags_eq' sf hne₁ hne₂ (dec_lmin_of_mem_iff hne₁ hne₂ hmemY) hs₁ hs₂
+  obtain ⟨G, rfl, rfl⟩ := dec_recal_wequiv sf hme heq hflag hrec₁ hrec₂
+  obtain ⟨hma₁, hsm₁⟩ := dec_marginal_ok hm₁
+  obtain ⟨hma₂, hsm₂⟩ := dec_marginal_ok hm₂
+  have emarg : marg₁ = marg₂ := dec_functionalVal_wequiv hme hf₁ hf₂ heq hma₁ hma₂
+  subst emarg
+  have es : s₁ = s₂ := by
+    have a₁ : sfMean sf y₁ (X₁.map id) w₁ = .ok s₁ := by rw [List.map_id]; exact hs₁
+    have a₂ : sfMean sf y₂ (X₂.map id) w₂ = .ok s₂ := by rw [List.map_id]; exact hs₂
+    exact dec_sfMean_wequiv sf id hX₁ hX₂ heq a₁ a₂
+  have esR : sR₁ = sR₂ := dec_sfMean_wequiv sf G hX₁ hX₂ heq hsR₁ hsR₂
+  have esm : sm₁ = sm₂ := by
+    have a₁ : sfMean sf y₁ (X₁.map fun _ => marg₁) w₁ = .ok sm₁ := by
+      rw [List.map_const', hX₁, ← List.map_const']; exact hsm₁
+    have a₂ : sfMean sf y₂ (X₂.map fun _ => marg₁) w₂ = .ok sm₂ := by
+      rw [List.map_const', hX₂, ← List.map_const']; exact hsm₂
+    exact dec_sfMean_wequiv sf (fun _ => marg₁) hX₁ hX₂ heq a₁ a₂
+  rw [es, esR, esm]
+
+end WEquivRepair
+
+/-! ## G. Totality for the squared error (used for the non-vacuity examples) -/
+section SqOK
+variable {K : Type} [Field K] [LinearOrder K] [IsStrictOrderedRing K] [ScoreOps K] [Inhabited K]
+
+omit [ScoreOps K] in
+/-- the mean fit succeeds on every non-empty sample with positive (or absent) weights -/
+theorem dec_isoFit_mean_ok (lv : K) (X y : List K) (w : Option (List K)) (hX : X.length = y.length)
+    (hw : ∀ w', w = some w' → w'.length = y.length) (hne : y ≠ [])
+    (hpos : ∀ v ∈ dec_wts y w, 0 < v) : ∃ tx ty, isoFit (some .mean) lv true X y w = .ok (tx, ty) := by
+  rw [fit_isoFit_eq (some .mean) lv true X y w hX hw]
+  have hperm : (fit_sorted true X y w).Perm (fit_rows X y w) := List.mergeSort_perm _ _
+  obtain ⟨_, c2, c3⟩ := dec_fit_rows_cols X y w hX hw
+  have hsne : (fit_sorted true X y w).map (·.y) ≠ [] := by
+    intro he
+    have h1 := congrArg List.length he
+    rw [List.length_map, hperm.length_eq] at h1
+    have h2 := congrArg List.length c2
+    rw [List.length_map] at h2
+    exact hne (List.length_eq_zero_iff.mp (by rw [← h2]; exact h1))
+  cases w with
+  | none =>
+    simp only [Option.map_none]
+    rw [isoReg_mean_none lv true _ hsne]
+    exact ⟨_, _, rfl⟩
+  | some w' =>
+    simp only [Option.map_some]
+    rw [isoReg_mean_some lv true _ _ hsne (by simp) (by
+      intro v hv
+      obtain ⟨a, ha, rfl⟩ := List.mem_map.mp hv
+      apply hpos
+      rw [← c3]
+      exact List.mem_map.mpr ⟨a, hperm.mem_iff.mp ha, rfl⟩)]
+    exact ⟨_, _, rfl⟩
+
+/-- **Squared error: `decompose` succeeds** on every non-empty data set with forecast columns of the
+right length and positive (or absent) weights of the right length -/
+theorem dec_decompose_sq_ok (sf : SF K) (hk : sf.kind = .squaredError) (he : sf.elem = none)
+    (fn : Option (Option Functional)) (hfn : fn = none ∨ fn = some (some .mean)) (lv : Option K)
+    (ys : List K) (cols : List (List K)) (w : Option (List K)) (hne : ys ≠ [])
+    (hc : ∀ c ∈ cols, c.length = ys.length) (hw : ∀ w', w = some w' → w'.length = ys.length)
+    (hpos : ∀ v ∈ dec_wts ys w, 0 < v) : ∃ rows, decompose sf fn lv ys cols w = .ok rows := by
+  obtain ⟨l, hv⟩ := dec_validate_sq sf hk he fn hfn lv
+  have hS : ∀ zs : List K, ∀ p ∈ ys.zip zs,
+      sfPair sf p.1 p.2 = .ok ((fun y z => (z - y) * (z - y)) p.1 p.2) :=
+    fun zs p _ => dec_sfPair_sq sf hk he p.1 p.2
+  have hmean : ∀ zs : List K, zs.length = ys.length → ∃ s, sfMean sf ys zs w = .ok s :=
+    fun zs hz => ⟨_, dec_sfMean_ok sf (fun y z => (z - y) * (z - y)) ys zs w hz (hS zs) hw hne hpos⟩
+  -- marginal stage
+  have hW : 0 < (dec_wts ys w).sum := by
+    apply List.sum_pos _ hpos
+    intro he'
+    have := dec_wts_length ys w hw
+    rw [he'] at this
+    exact hne (List.length_eq_zero_iff.mp this.symm)
+  obtain ⟨sm, hsm⟩ := hmean (ys.map fun _ =>
+    (List.zipWith (· * ·) ys (dec_wts ys w)).sum / (dec_wts ys w).sum) (by simp)
+  have hmarg : dec_marginal sf .mean l ys w
+      = .ok ((List.zipWith (· * ·) ys (dec_wts ys w)).sum / (dec_wts ys w).sum, sm) := by
+    unfold dec_marginal
+    have hfv : functionalVal .mean l ys w
+        = .ok ((List.zipWith (· * ·) ys (dec_wts ys w)).sum / (dec_wts ys w).sum) :=
+      dec_average_ok ys ys w rfl hw hne hpos
+    rw [hfv, dec_ok_bind]
+    have hprobe : ∀ m : K, sfMean sf [ys[0]!] [m] none ≠ .error .valueError :=
+      fun m => dec_sfMean_not_valueError sf _ _ none rfl (fun y z => (z - y) * (z - y))
+        (fun p _ => dec_sfPair_sq sf hk he p.1 p.2)
+    split_ifs with hcnd
+    · cases hp : sfMean sf [ys[0]!] [(List.zipWith (· * ·) ys (dec_wts ys w)).sum / (dec_wts ys w).sum] none with
+      | error e =>
+        cases e
+        · exact absurd hp (hprobe _)
+        all_goals (simp only []; rw [hsm]; rfl)
+      | ok v => simp only []; rw [hsm]; rfl
+    · simp only []
+      rw [hsm]; rfl
+  -- rows
+  have hallowed := dec_yminAllowed_of_ok sf ys w _ (dec_sfPair_sq sf hk he ys[0]! (ys.foldl min ys[0]!))
+  have hrow : ∀ x ∈ cols, ∃ row, dec_row sf .mean l ys w sm x = .ok row := by
+    intro x hx
+    obtain ⟨tx, ty, hfit⟩ := dec_isoFit_mean_ok l x ys w (hc x hx) hw hne hpos
+    have hrec : dec_recal sf .mean l ys w x = .ok (x.map (interp tx ty)) := by
+      refine (dec_recal_ok sf .mean l ys w x _).mpr ⟨tx, ty, hfit, ?_⟩
+      rw [if_neg (by rw [hallowed]; simp)]
+      rfl
+    obtain ⟨s, hs⟩ := hmean x (hc x hx)
+    obtain ⟨sR, hsR⟩ := hmean (x.map (interp tx ty)) (by simp [hc x hx])
+    exact ⟨_, (dec_row_ok sf .mean l ys w sm x _).mpr ⟨_, s, sR, hrec, hs, hsR, rfl⟩⟩
+  have hrows : ∃ rows, cols.mapM (dec_row sf .mean l ys w sm) = .ok rows := by
+    cases hm : cols.mapM (dec_row sf .mean l ys w sm) with
+    | ok rows => exact ⟨rows, rfl⟩
+    | error e =>
+      exfalso
+      clear hmarg hsm
+      induction cols generalizing e with
+      | nil => cases hm
+      | cons c cols ih =>
+        rw [dec_mapM_cons] at hm
+        obtain ⟨row, hr⟩ := hrow c (by simp)
+        rw [hr, dec_ok_bind] at hm
+        cases hm' : cols.mapM (dec_row sf .mean l ys w sm) with
+        | ok rows => rw [hm'] at hm; cases hm
+        | error e' =>
+          exact ih (fun c' hc' => hc c' (by simp [hc'])) (fun x hx => hrow x (by simp [hx])) e' hm'
+  obtain ⟨rows, hrows⟩ := hrows
+  exact ⟨rows, (dec_ok_iff sf fn lv ys cols w rows).mpr
+    ⟨.mean, l, _, sm, hv, (dec_shape_ok ys cols w).mpr ⟨hc, hw, hne⟩, hmarg, hrows⟩⟩
+
+end SqOK
 
 end MD
